@@ -8,15 +8,25 @@ import Cuckoo.Gen.Sync
 the locking protocol of `Model/Proto.lean`, the ordered sequence of synchronisation-relevant actions (loads of the
 resize counter / hashpower / current lock array, `lock()`, `unlock()`, validation, lazy rehash, bucket accesses, bucket
 array replacement, counter bump, …) together with the structure markers (loop / if / else / try / catch / return /
-throw / continue / break) and the operand texts.
+throw / continue / break), the operand texts and the operands in postfix form.
 
 Every theorem below is a closed Boolean check of one skeleton, proved by `decide` (kernel evaluation): a source change
 that reorders, drops or re-targets one of these actions makes the corresponding theorem fail to compile — on every
-path, executed by a test or not — while renaming locals, comments, asserts, debug / hook macros and reformatting do
-not change the checked facts (local names are only ever used *relationally*: "the index locked first is the one the
-guarded swap made the smaller", never by their spelling).
+path, executed by a test or not.
 
-Each theorem is followed by a negative `example`: the same check rejects a hand-written bad skeleton (non-vacuity).
+The checks are *semantic*, not shape matches.  Most of them run the skeleton on a small abstract machine (`exec`):
+values are numbers (a lock array = its position in `all_locks_`, the lock `i` of array `j` = `100 j + i`, an iterator =
+a position), conditions whose operands are determined are evaluated, all others are followed both ways, loops of every
+spelling (`while`, `for`, range-`for`, `std::for_each`, index loops, `do`) are simply executed.  The theorems then
+quantify over *all executions on all small inputs*: "the stripes are locked in strictly ascending order and are exactly
+the stripes of the given buckets", "every lock of every array from `first_locked` to `end()` is unlocked", "on every
+path that changes the table the counter is bumped after the last change and before the return".  So renaming locals,
+comments, asserts, debug / hook macros, reformatting, flipping an `if`/`else`, early returns, hoisting a pure
+sub-expression into a local, `std::min`/`std::max` instead of a conditional swap, another loop form … leave them true,
+while the harmful changes named in each docstring make them false.
+
+Each theorem is followed by negative `example`s (skeletons extracted from deliberately broken sources: non-vacuity) and,
+where the check was generalised, by positive ones (skeletons of behaviour-preserving refactorings).
 -/
 namespace Cuckoo.Props.C01Sync
 open Cuckoo.Gen.Sync
@@ -24,12 +34,12 @@ open Cuckoo.Gen.Sync
 abbrev Sk := List Act
 
 /-- shorthand for hand-written skeletons -/
-def A (k : K) (r : String := "") (a : List String := []) : Act := ⟨k, r, a⟩
+def A (k : K) (r : String := "") (a : List String := []) : Act := ⟨k, r, a, []⟩
 
 /-! ## generic executable predicates on action lists -/
 
 def isMarker (k : K) : Bool :=
-  k == .params || k == .decl || k == .step || k == .loop || k == .endLoop || k == .if_ || k == .then_ || k == .else_ ||
+  k == .params || k == .decl || k == .assign || k == .step || k == .do_ || k == .incr_ || k == .loop || k == .endLoop || k == .if_ || k == .then_ || k == .else_ ||
   k == .endIf || k == .try_ || k == .catch_ || k == .endTry || k == .switch_ || k == .case_ || k == .default_ ||
   k == .endSwitch || k == .lambda_ || k == .endLambda || k == .ret || k == .throw_ || k == .continue_ || k == .break_
 
@@ -123,9 +133,12 @@ def isInfixL (p : List Char) : List Char → Bool
 /-- `sub` occurs in `s` -/
 def mentions (s sub : String) : Bool := isInfixL sub.toList s.toList
 
+/-- same elements, any order -/
+def samePerm (a b : List String) : Bool := a.length == b.length && a.all b.contains && b.all a.contains
+
 def params (l : Sk) : List String :=
   match l with
-  | ⟨.params, _, ps⟩ :: _ => ps
+  | ⟨.params, _, ps, _⟩ :: _ => ps
   | _ => []
 
 def declOf (l : Sk) (name : String) : Option Act := l.find? fun x => x.k == .decl && x.a.head? == some name
@@ -159,165 +172,1303 @@ def isBookkeeping (x : Act) : Bool :=
   x.k == .moveBucket || x.k == .setMigrated || x.k == .lazySet || x.k == .rehashWorkers || x.k == .rehashLock ||
   x.k == .parallelExec || x.k == .lazyDec
 
+
+/-! ## an abstract machine for skeletons -/
+
+/-- statement tree of a skeleton -/
+inductive Stmt
+  | nil
+  | act (a : Act) (k : Stmt)
+  | ite (c : Act) (pre : List Act) (t e k : Stmt)
+  | loop (h : Act) (pre : List Act) (body inc k : Stmt)
+  | iter (var : String) (elems : List Nat) (body k : Stmt)   -- created at run time: remaining elements of a range loop
+  | tryc (body h k : Stmt)
+  | handler (c : Act) (body next : Stmt)
+  | lam (body k : Stmt)
+  | bad
+
+def isCloser (k : K) : Bool :=
+  k == .else_ || k == .endIf || k == .endLoop || k == .incr_ || k == .catch_ || k == .endTry || k == .endSwitch ||
+  k == .endLambda
+
+/-- `parse fuel inHandlers l` : the statements at the head of `l` up to a closing marker (left in place) -/
+def parse : Nat → Bool → Sk → Stmt × Sk
+  | 0, _, l => (.bad, l)
+  | _ + 1, _, [] => (.nil, [])
+  | f + 1, hmode, x :: xs =>
+    if hmode then
+      if x.k == .catch_ then
+        let (b, r1) := parse f false xs
+        let (nx, r2) := parse f true r1
+        (.handler x b nx, r2)
+      else (.nil, x :: xs)
+    else if isCloser x.k then (.nil, x :: xs)
+    else if x.k == .if_ then
+      let pre := xs.takeWhile (fun y => y.k != .then_)
+      let r0 := (xs.dropWhile (fun y => y.k != .then_)).drop 1
+      let (t, r1) := parse f false r0
+      match r1 with
+      | y :: r2 =>
+        if y.k == .else_ then
+          let (e, r3) := parse f false r2
+          match r3 with
+          | z :: r4 =>
+            if z.k == .endIf then
+              let (k, r5) := parse f false r4
+              (.ite x pre t e k, r5)
+            else (.bad, r3)
+          | [] => (.bad, [])
+        else if y.k == .endIf then
+          let (k, r3) := parse f false r2
+          (.ite x pre t .nil k, r3)
+        else (.bad, r1)
+      | [] => (.bad, [])
+    else if x.k == .loop then
+      let pre := xs.takeWhile (fun y => y.k != .do_)
+      let r0 := (xs.dropWhile (fun y => y.k != .do_)).drop 1
+      let (b, r1) := parse f false r0
+      match r1 with
+      | y :: r2 =>
+        if y.k == .incr_ then
+          let (inc, r3) := parse f false r2
+          match r3 with
+          | z :: r4 =>
+            if z.k == .endLoop then
+              let (k, r5) := parse f false r4
+              (.loop x pre b inc k, r5)
+            else (.bad, r3)
+          | [] => (.bad, [])
+        else if y.k == .endLoop then
+          let (k, r3) := parse f false r2
+          (.loop x pre b .nil k, r3)
+        else (.bad, r1)
+      | [] => (.bad, [])
+    else if x.k == .try_ then
+      let (b, r1) := parse f false xs
+      let (h, r2) := parse f true r1
+      match r2 with
+      | z :: r3 =>
+        if z.k == .endTry then
+          let (k, r4) := parse f false r3
+          (.tryc b h k, r4)
+        else (.bad, r2)
+      | [] => (.bad, [])
+    else if x.k == .lambda_ then
+      let (b, r1) := parse f false xs
+      match r1 with
+      | z :: r2 =>
+        if z.k == .endLambda then
+          let (k, r3) := parse f false r2
+          (.lam b k, r3)
+        else (.bad, r1)
+      | [] => (.bad, [])
+    else if x.k == .switch_ then (.bad, x :: xs)
+    else
+      let (k, r) := parse f false xs
+      (.act x k, r)
+
+def toStmt (l : Sk) : Stmt := (parse (2 * l.length + 2) false l).1
+
+/-- does the tree contain a part that could not be parsed / is not interpreted (switch) -/
+def Stmt.hasBad : Stmt → Bool
+  | .nil => false
+  | .act _ k => k.hasBad
+  | .ite _ _ t e k => t.hasBad || e.hasBad || k.hasBad
+  | .loop _ _ b i k => b.hasBad || i.hasBad || k.hasBad
+  | .iter _ _ b k => b.hasBad || k.hasBad
+  | .tryc b h k => b.hasBad || h.hasBad || k.hasBad
+  | .handler _ b n => b.hasBad || n.hasBad
+  | .lam b k => b.hasBad || k.hasBad
+  | .bad => true
+
+/-- marker value of the list of lock arrays `all_locks_` -/
+def LIST : Nat := 7777
+
+/-- one executed action with its evaluated receiver / operands (`none` = not determined) -/
+structure Ev where
+  k : K
+  r : Option Nat
+  v : List (Option Nat)
+  a : Act
+
+/-- machine state.  Values are natural numbers: a lock array is its position in `all_locks_` (a new vector gets the
+next free position), an iterator into `all_locks_` is a position, the lock `i` of array `j` is `100 * j + i`. -/
+structure St where
+  env : List (String × Nat)
+  arrs : List Nat              -- the lock arrays in list order
+  sz : List (Nat × Nat)        -- sizes of arrays (default `dsz`)
+  dsz : Nat
+  fresh : Nat
+  bud : Nat                    -- iterations still allowed for loops whose condition is not determined
+  kbud : Nat                   -- … for loops whose condition is determined (bounds `while (true)`)
+  exc : String                 -- exception in flight
+  tr : List Ev                 -- newest first
+
+def St.sizeOf (st : St) (c : Nat) : Nat := (st.sz.lookup c).getD st.dsz
+def St.set (st : St) (n : String) (v : Option Nat) : St :=
+  match v with
+  | some w => { st with env := (n, w) :: st.env.filter (fun p => p.1 != n) }
+  | none => { st with env := st.env.filter (fun p => p.1 != n) }
+
+def b2n (b : Bool) : Nat := if b then 1 else 0
+
+def binop (o : String) (x y : Option Nat) : Option Nat :=
+  if o == "&&" then
+    match x, y with
+    | some 0, _ => some 0 | _, some 0 => some 0 | some _, some _ => some 1 | _, _ => none
+  else if o == "||" then
+    match x, y with
+    | some 0, some 0 => some 0 | some 0, none => none | none, some 0 => none | none, none => none | _, _ => some 1
+  else
+    match x, y with
+    | some a, some b =>
+      if o == "==" then some (b2n (a == b)) else if o == "!=" then some (b2n (a != b))
+      else if o == "<" then some (b2n (a < b)) else if o == ">" then some (b2n (a > b))
+      else if o == "<=" then some (b2n (a ≤ b)) else if o == ">=" then some (b2n (a ≥ b))
+      else if o == "+" then some (a + b) else if o == "-" then some (a - b) else if o == "*" then some (a * b)
+      else if o == "%" then (if b == 0 then none else some (a % b))
+      else if o == "/" then (if b == 0 then none else some (a / b))
+      else if o == "<<" then some (a * 2 ^ b) else if o == "&" then some (a &&& b)
+      else none
+    | _, _ => none
+
+/-- the functions the machine knows; anything else is looked up by its source text (an oracle the theorem provides) -/
+def builtin (st : St) (f : String) (args : List (Option Nat)) (t : String) : Option Nat :=
+  match args with
+  | [] => if f == "get_current_locks" then st.arrs.getLast? else st.env.lookup t
+  | [a] =>
+    if f == "lock_ind" || f == "std::move" || f == "size_type" || f == "size_t" || f == "AllUnlocker" || f == "std::ref" then a
+    else if f == "std::prev" then a.map (· - 1)
+    else if f == "std::next" then a.map (· + 1)
+    else if f == ".get_current_locks" then st.arrs.getLast?
+    else match a with
+      | some c =>
+        -- iterators: into `all_locks_` = positions; into a lock array `c` = the lock values `100 c + i`
+        let isArr := st.arrs.contains c || (st.sz.lookup c).isSome
+        if f == ".end" then (if c == LIST then some st.arrs.length else if isArr then some (100 * c + st.sizeOf c) else st.env.lookup t)
+        else if f == ".begin" then (if c == LIST then some 0 else if isArr then some (100 * c) else st.env.lookup t)
+        else if f == ".back" then (if c == LIST then st.arrs.getLast? else st.env.lookup t)
+        else if f == ".size" then (if c == LIST then some st.arrs.length else
+          if st.arrs.contains c || (st.sz.lookup c).isSome then some (st.sizeOf c) else st.env.lookup t)
+        else (st.env.lookup t).orElse fun _ => st.env.lookup f
+      | none => (st.env.lookup t).orElse fun _ => st.env.lookup f
+  | [a, b] =>
+    if f == "std::min" then (match a, b with | some x, some y => some (min x y) | _, _ => none)
+    else if f == "std::max" then (match a, b with | some x, some y => some (max x y) | _, _ => none)
+    else if f == "AllLocksManager" then b
+    else st.env.lookup t
+  | _ => st.env.lookup t
+
+def takeArgs : Nat → List (Option Nat) → List (Option Nat) → Option (List (Option Nat) × List (Option Nat))
+  | 0, s, acc => some (acc, s)
+  | n + 1, x :: s, acc => takeArgs n s (x :: acc)
+  | _ + 1, [], _ => none
+
+/-- evaluation of a postfix operand; the result is the final stack (`none` = malformed) -/
+def evalStack (st : St) : List Tk → List (Option Nat) → Option (List (Option Nat))
+  | [], s => some s
+  | t :: ts, s =>
+    match t with
+    | .num n => evalStack st ts (some n :: s)
+    | .var n => evalStack st ts ((if n == "all_locks_" then some LIST else st.env.lookup n) :: s)
+    | .unk => evalStack st ts (none :: s)
+    | .lst _ => evalStack st ts s
+    | .mem m full =>
+      (match s with
+       | _ :: s' => evalStack st ts ((if m == "all_locks_" then some LIST else st.env.lookup full) :: s')
+       | [] => none)
+    | .sub full =>
+      (match s with
+       | i :: b :: s' =>
+         let v := match st.env.lookup full with
+           | some w => some w
+           | none => (match b, i with | some bb, some ii => some (100 * bb + ii) | _, _ => none)
+         evalStack st ts (v :: s')
+       | _ => none)
+    | .call f n full =>
+      (match takeArgs n s [] with
+       | some (args, s') => evalStack st ts (builtin st f args full :: s')
+       | none => none)
+    | .op o =>
+      if o == "?:" then
+        (match s with
+         | z :: y :: c :: s' =>
+           evalStack st ts ((match c with | some 0 => z | some _ => y | none => (if y == z then y else none)) :: s')
+         | _ => none)
+      else if o == "u!" then
+        (match s with | x :: s' => evalStack st ts (x.map (fun v => b2n (v == 0)) :: s') | [] => none)
+      else if o == "u*" then
+        (match s with
+         | x :: s' => evalStack st ts (x.map (fun v => if v < st.arrs.length then st.arrs.getD v v else v) :: s')
+         | [] => none)
+      else if o == "u&" || o == "u+" then evalStack st ts s
+      else if o == "u-" || o == "u~" || o == "u++" || o == "u--" || o == "p++" || o == "p--" then
+        (match s with | _ :: s' => evalStack st ts (none :: s') | [] => none)
+      else
+        (match s with
+         | y :: x :: s' => evalStack st ts (binop o x y :: s')
+         | _ => none)
+
+/-- value of an operand (`[]` = absent operand = `none`) -/
+def eval (st : St) (e : List Tk) : Option Nat :=
+  match evalStack st e [] with
+  | some [v] => v
+  | _ => none
+
+inductive Exit | fall | brk | cont | ret | thrw | cut
+deriving DecidableEq, Repr
+
+abbrev Out := List (St × Exit)
+
+def isMarkerK (k : K) : Bool :=
+  k == .params || k == .decl || k == .assign || k == .step || k == .do_ || k == .incr_ || k == .loop || k == .endLoop ||
+  k == .if_ || k == .then_ || k == .else_ || k == .endIf || k == .try_ || k == .catch_ || k == .endTry || k == .switch_ ||
+  k == .case_ || k == .default_ || k == .endSwitch || k == .lambda_ || k == .endLambda || k == .continue_ || k == .break_
+
+/-- calls that may leave by `resize_counter_changed` -/
+def mayThrow (k : K) : Bool :=
+  k == .checkRc || k == .lockOne || k == .lockTwo || k == .lockThree || k == .pathSearch || k == .pathMove ||
+  k == .slotSearch
+
+def assignList (st : St) (name : String) : Nat → List (Option Nat) → St
+  | _, [] => st
+  | i, v :: vs => assignList (st.set (name ++ "[" ++ toString i ++ "]") v) name (i + 1) vs
+
+def mkEv (st : St) (a : Act) : Ev :=
+  ⟨a.k, (a.x.head?.bind fun e => if e.isEmpty then none else eval st e), (a.x.drop 1).map (eval st), a⟩
+
+/-- one action -/
+def execAct (a : Act) (st : St) : Out :=
+  if a.k == .decl then
+    let name := a.a.getD 0 "?"
+    match a.x with
+    | [e] =>
+      if e.getLast? matches some (.lst _) then
+        match evalStack st e [] with
+        | some vs => [(assignList st name 0 vs.reverse, .fall)]
+        | none => [(st, .fall)]
+      else [(st.set name (eval st e), .fall)]
+    | _ =>
+      -- `T x;` / `T x(args);` : a new object
+      [({ st.set name (some st.fresh) with fresh := st.fresh + 1 }, .fall)]
+  else if a.k == .assign || a.k == .step then
+    [(st.set (a.a.getD (if a.k == .assign then 0 else 1) "?") (eval st (a.x.getD 0 [])), .fall)]
+  else if a.k == .swapVals then
+    let s := a.a.getD 0 "?"
+    let t := a.a.getD 1 "?"
+    let vs := eval st (a.x.getD 1 [])
+    let vt := eval st (a.x.getD 2 [])
+    [((st.set s vt).set t vs, .fall)]
+  else if a.k == .continue_ then [(st, .cont)]
+  else if a.k == .break_ then [(st, .brk)]
+  else if isMarkerK a.k then [(st, .fall)]
+  else
+    let ev := mkEv st a
+    let st1 := { st with tr := ev :: st.tr }
+    if a.k == .ret then [(st1, .ret)]
+    else if a.k == .throw_ then [({ st1 with exc := a.a.getD 0 "" }, .thrw)]
+    else
+      let st2 :=
+        if a.k == .emplaceBack then
+          (match ev.v.head? with | some (some c) => { st1 with arrs := st1.arrs ++ [c] } | _ => st1)
+        else if a.k == .resizeVec then
+          (match ev.r, ev.v.head? with
+           | some c, some (some n) => { st1 with sz := (c, n) :: st1.sz.filter (fun p => p.1 != c) }
+           | _, _ => st1)
+        else st1
+      if mayThrow a.k then [(st2, .fall), ({ st2 with exc := "resize_counter_changed" }, .thrw)] else [(st2, .fall)]
+
+def execActs : List Act → St → Out
+  | [], st => [(st, .fall)]
+  | a :: as, st => (execAct a st).flatMap fun p => if p.2 == .fall then execActs as p.1 else [p]
+
+def catches (c : Act) (exc : String) : Bool :=
+  let ty := c.a.getD 0 ""
+  ty == "..." || (exc != "" && (mentions ty exc || mentions exc (String.ofList (ty.toList.filter (fun ch => ch.isAlphanum || ch == '_')))))
+
+/-- all executions (every undetermined condition is followed both ways, loops with an undetermined condition at most
+`bud` times in total) -/
+def exec : Nat → Stmt → St → Out
+  | 0, _, st => [(st, .cut)]
+  | _ + 1, .nil, st => [(st, .fall)]
+  | _ + 1, .bad, st => [(st, .cut)]
+  | f + 1, .act a k, st =>
+    (execAct a st).flatMap fun p => if p.2 == .fall then exec f k p.1 else [p]
+  | f + 1, .ite c pre t e k, st =>
+    (execActs pre st).flatMap fun p =>
+      if p.2 != .fall then [p] else
+      let go (b : Stmt) : Out := (exec f b p.1).flatMap fun q => if q.2 == .fall then exec f k q.1 else [q]
+      match eval p.1 (c.x.getD 0 []) with
+      | some 0 => go e
+      | some _ => go t
+      | none => go t ++ go e
+  | f + 1, .iter var elems body k, st =>
+    match elems with
+    | [] => exec f k st
+    | el :: es =>
+      (exec f body (st.set var (some el))).flatMap fun q =>
+        if q.2 == .fall || q.2 == .cont then exec f (.iter var es body k) q.1
+        else if q.2 == .brk then exec f k q.1 else [q]
+  | f + 1, .loop h pre body inc k, st =>
+    let kind := h.a.getD 0 ""
+    if kind == "range" then
+      let var := h.a.getD 1 "?"
+      match eval st (h.x.getD 0 []) with
+      | some c =>
+        if st.arrs.contains c || (st.sz.lookup c).isSome then
+          exec f (.iter var ((List.range (st.sizeOf c)).map (fun i => 100 * c + i)) body k) st
+        else [(st, .cut)]
+      | none =>
+        -- container not determined: zero or one iteration
+        let once : Out := if st.bud == 0 then [] else
+          (exec f body ({ st with bud := st.bud - 1 }.set var none)).flatMap fun q =>
+            if q.2 == .fall || q.2 == .cont || q.2 == .brk then exec f k q.1 else [q]
+        exec f k st ++ once
+    else
+      let iterate (s0 : St) : Out :=
+        (exec f body s0).flatMap fun q =>
+          if q.2 == .fall || q.2 == .cont then
+            (exec f inc q.1).flatMap fun r => if r.2 == .fall then exec f (.loop h pre body inc k) r.1 else [r]
+          else if q.2 == .brk then exec f k q.1 else [q]
+      if kind == "do" then
+        -- body, then the condition actions (`inc`), then the test
+        (exec f body st).flatMap fun q =>
+          if q.2 == .fall || q.2 == .cont then
+            (exec f inc q.1).flatMap fun r =>
+              if r.2 != .fall then [r] else
+              match eval r.1 (h.x.getD 0 []) with
+              | some 0 => exec f k r.1
+              | some _ => if r.1.kbud == 0 then [(r.1, .cut)] else exec f (.loop h pre body inc k) { r.1 with kbud := r.1.kbud - 1 }
+              | none => exec f k r.1 ++
+                  (if r.1.bud == 0 then [] else exec f (.loop h pre body inc k) { r.1 with bud := r.1.bud - 1 })
+          else if q.2 == .brk then exec f k q.1 else [q]
+      else
+        (execActs pre st).flatMap fun p =>
+          if p.2 != .fall then [p] else
+          let cx := h.x.getD 0 []
+          match (if cx.isEmpty then some 1 else eval p.1 cx) with
+          | some 0 => exec f k p.1
+          | some _ => if p.1.kbud == 0 then [(p.1, .cut)] else iterate { p.1 with kbud := p.1.kbud - 1 }
+          | none => exec f k p.1 ++ (if p.1.bud == 0 then [] else iterate { p.1 with bud := p.1.bud - 1 })
+  | f + 1, .tryc body h k, st =>
+    (exec f body st).flatMap fun q =>
+      if q.2 == .fall then exec f k q.1
+      else if q.2 == .thrw then
+        (exec f h q.1).flatMap fun r => if r.2 == .fall then exec f k r.1 else [r]
+      else [q]
+  | f + 1, .handler c body next, st =>
+    if catches c st.exc then exec f body { st with exc := "" }
+    else match next with
+      | .nil => [(st, .thrw)]
+      | _ => exec f next st
+  | f + 1, .lam body k, st =>
+    (exec f body st).flatMap fun q => if q.2 == .fall || q.2 == .ret then exec f k q.1 else [q]
+
+/-- a finished execution: how it ended and what it did (oldest first) -/
+structure Run where
+  exit : Exit
+  tr : List Ev
+  arrs : List Nat
+  sz : List (Nat × Nat)
+  env : List (String × Nat)
+
+def initSt (env : List (String × Nat)) (nArr dsz kb : Nat) : St :=
+  ⟨env, List.range nArr, [], dsz, nArr, 2, kb, "", []⟩
+
+/-- all executions of `l` from `env`, with `nArr` lock arrays of `dsz` locks; `kb` bounds the iterations of loops whose
+condition is determined (an execution that needs more ends with `Exit.cut`) -/
+def runsOf (l : Sk) (env : List (String × Nat)) (nArr dsz : Nat := 3) (kb : Nat := 24) : List Run :=
+  (exec 600 (toStmt l) (initSt env nArr dsz kb)).map fun p => ⟨p.2, p.1.tr.reverse, p.1.arrs, p.1.sz, p.1.env⟩
+
+
+/-! ## example skeletons (extracted by the translator from deliberately broken `bad_…` and from refactored `alt_…` sources) -/
+
+def bad_snapshot_swapped_loads : Sk := [
+  ⟨.params, "", ["hv"], []⟩,
+  ⟨.loop, "", ["while", "?", "true"], [[.num 1]]⟩,
+  ⟨.do_, "", [], []⟩,
+  ⟨.hpGet, "", [], [[]]⟩,
+  ⟨.decl, "", ["hp", "hashpower()"], [[.call "hashpower" 0 "hashpower()"]]⟩,
+  ⟨.loadRc, "", [], [[]]⟩,
+  ⟨.decl, "", ["resize_counter", "load_resize_counter()"], [[.call "load_resize_counter" 0 "load_resize_counter()"]]⟩,
+  ⟨.decl, "", ["i1", "index_hash(hp,hv.hash)"], [[.var "hp", .var "hv", .mem "hash" "hv.hash", .call "index_hash" 2 "index_hash(hp,hv.hash)"]]⟩,
+  ⟨.decl, "", ["i2", "alt_index(hp,hv.partial,i1)"], [[.var "hp", .var "hv", .mem "partial" "hv.partial", .var "i1", .call "alt_index" 3 "alt_index(hp,hv.partial,i1)"]]⟩,
+  ⟨.try_, "", [], []⟩,
+  ⟨.lockTwo, "", ["resize_counter", "i1", "i2", "TABLE_MODE()"], [[], [.var "resize_counter"], [.var "i1"], [.var "i2"], [.call "TABLE_MODE" 0 "TABLE_MODE()"]]⟩,
+  ⟨.ret, "", ["lock_two(resize_counter,i1,i2,TABLE_MODE())"], [[.var "resize_counter", .var "i1", .var "i2", .call "TABLE_MODE" 0 "TABLE_MODE()", .call "lock_two" 4 "lock_two(resize_counter,i1,i2,TABLE_MODE())"]]⟩,
+  ⟨.catch_, "", ["resize_counter_changed&"], []⟩,
+  ⟨.continue_, "", [], []⟩,
+  ⟨.endTry, "", [], []⟩,
+  ⟨.endLoop, "", [], []⟩
+]
+
+def bad_run_cuckoo_late_load : Sk := [
+  ⟨.params, "", ["b", "insert_bucket", "insert_slot"], []⟩,
+  ⟨.hpGet, "", [], [[]]⟩,
+  ⟨.decl, "", ["hp", "hashpower()"], [[.call "hashpower" 0 "hashpower()"]]⟩,
+  ⟨.unlock, "b", [], [[.var "b"]]⟩,
+  ⟨.loadRc, "", [], [[]]⟩,
+  ⟨.decl, "", ["resize_counter", "load_resize_counter()"], [[.call "load_resize_counter" 0 "load_resize_counter()"]]⟩,
+  ⟨.decl, "", ["cuckoo_path", ""], []⟩,
+  ⟨.decl, "", ["done", "false"], [[.num 0]]⟩,
+  ⟨.try_, "", [], []⟩,
+  ⟨.loop, "", ["while", "?", "!done"], [[.var "done", .op "u!"]]⟩,
+  ⟨.do_, "", [], []⟩,
+  ⟨.pathSearch, "", ["TABLE_MODE", "hp", "resize_counter", "cuckoo_path", "b.i1", "b.i2"], [[], [.var "hp"], [.var "resize_counter"], [.var "cuckoo_path"], [.var "b", .mem "i1" "b.i1"], [.var "b", .mem "i2" "b.i2"]]⟩,
+  ⟨.decl, "", ["depth", "cuckoopath_search<TABLE_MODE>(hp,resize_counter,cuckoo_path,b.i1,b.i2)"], [[.var "hp", .var "resize_counter", .var "cuckoo_path", .var "b", .mem "i1" "b.i1", .var "b", .mem "i2" "b.i2", .call "cuckoopath_search" 5 "cuckoopath_search<TABLE_MODE>(hp,resize_counter,cuckoo_path,b.i1,b.i2)"]]⟩,
+  ⟨.if_, "", ["<", "depth", "0"], [[.var "depth", .num 0, .op "<"]]⟩,
+  ⟨.then_, "", [], []⟩,
+  ⟨.break_, "", [], []⟩,
+  ⟨.endIf, "", [], []⟩,
+  ⟨.if_, "", ["?", "cuckoopath_move<TABLE_MODE>(resize_counter,cuckoo_path,depth,b)"], [[.var "resize_counter", .var "cuckoo_path", .var "depth", .var "b", .call "cuckoopath_move" 4 "cuckoopath_move<TABLE_MODE>(resize_counter,cuckoo_path,depth,b)"]]⟩,
+  ⟨.pathMove, "", ["TABLE_MODE", "resize_counter", "cuckoo_path", "depth", "b"], [[], [.var "resize_counter"], [.var "cuckoo_path"], [.var "depth"], [.var "b"]]⟩,
+  ⟨.then_, "", [], []⟩,
+  ⟨.assign, "", ["insert_bucket", "cuckoo_path[0].bucket"], [[.var "cuckoo_path", .num 0, .sub "cuckoo_path[0]", .mem "bucket" "cuckoo_path[0].bucket"]]⟩,
+  ⟨.assign, "", ["insert_slot", "cuckoo_path[0].slot"], [[.var "cuckoo_path", .num 0, .sub "cuckoo_path[0]", .mem "slot" "cuckoo_path[0].slot"]]⟩,
+  ⟨.assign, "", ["done", "true"], [[.num 1]]⟩,
+  ⟨.break_, "", [], []⟩,
+  ⟨.endIf, "", [], []⟩,
+  ⟨.endLoop, "", [], []⟩,
+  ⟨.catch_, "", ["resize_counter_changed&"], []⟩,
+  ⟨.ret, "", ["failure_under_expansion"], [[.var "failure_under_expansion"]]⟩,
+  ⟨.endTry, "", [], []⟩,
+  ⟨.ret, "", ["done?ok:failure"], [[.var "done", .var "ok", .var "failure", .op "?:"]]⟩
+]
+
+def bad_lock_two_reread_locks : Sk := [
+  ⟨.params, "", ["resize_counter", "i1", "i2", ""], []⟩,
+  ⟨.decl, "", ["l1", "lock_ind(i1)"], [[.var "i1", .call "lock_ind" 1 "lock_ind(i1)"]]⟩,
+  ⟨.decl, "", ["l2", "lock_ind(i2)"], [[.var "i2", .call "lock_ind" 1 "lock_ind(i2)"]]⟩,
+  ⟨.if_, "", ["<", "l2", "l1"], [[.var "l2", .var "l1", .op "<"]]⟩,
+  ⟨.then_, "", [], []⟩,
+  ⟨.swapVals, "", ["l1", "l2"], [[], [.var "l1"], [.var "l2"]]⟩,
+  ⟨.endIf, "", [], []⟩,
+  ⟨.getLocks, "", [], [[]]⟩,
+  ⟨.decl, "", ["locks", "get_current_locks()"], [[.call "get_current_locks" 0 "get_current_locks()"]]⟩,
+  ⟨.lock, "locks[l1]", ["locks", "l1"], [[.var "locks", .var "l1", .sub "locks[l1]"]]⟩,
+  ⟨.checkRc, "", ["resize_counter", "locks[l1]"], [[], [.var "resize_counter"], [.var "locks", .var "l1", .sub "locks[l1]"]]⟩,
+  ⟨.if_, "", ["!=", "l2", "l1"], [[.var "l2", .var "l1", .op "!="]]⟩,
+  ⟨.then_, "", [], []⟩,
+  ⟨.getLocks, "", [], [[]]⟩,
+  ⟨.lock, "get_current_locks()[l2]", ["get_current_locks()", "l2"], [[.call "get_current_locks" 0 "get_current_locks()", .var "l2", .sub "get_current_locks()[l2]"]]⟩,
+  ⟨.endIf, "", [], []⟩,
+  ⟨.rehashLock, "", ["kIsLazy", "l1"], [[], [.var "l1"]]⟩,
+  ⟨.rehashLock, "", ["kIsLazy", "l2"], [[], [.var "l2"]]⟩,
+  ⟨.ret, "", ["TwoBuckets(locks,i1,i2,normal_mode())"], [[.var "locks", .var "i1", .var "i2", .call "normal_mode" 0 "normal_mode()", .call "TwoBuckets" 4 "TwoBuckets(locks,i1,i2,normal_mode())"]]⟩
+]
+
+def bad_lock_two_check_after_second : Sk := [
+  ⟨.params, "", ["resize_counter", "i1", "i2", ""], []⟩,
+  ⟨.decl, "", ["l1", "lock_ind(i1)"], [[.var "i1", .call "lock_ind" 1 "lock_ind(i1)"]]⟩,
+  ⟨.decl, "", ["l2", "lock_ind(i2)"], [[.var "i2", .call "lock_ind" 1 "lock_ind(i2)"]]⟩,
+  ⟨.if_, "", ["<", "l2", "l1"], [[.var "l2", .var "l1", .op "<"]]⟩,
+  ⟨.then_, "", [], []⟩,
+  ⟨.swapVals, "", ["l1", "l2"], [[], [.var "l1"], [.var "l2"]]⟩,
+  ⟨.endIf, "", [], []⟩,
+  ⟨.getLocks, "", [], [[]]⟩,
+  ⟨.decl, "", ["locks", "get_current_locks()"], [[.call "get_current_locks" 0 "get_current_locks()"]]⟩,
+  ⟨.lock, "locks[l1]", ["locks", "l1"], [[.var "locks", .var "l1", .sub "locks[l1]"]]⟩,
+  ⟨.if_, "", ["!=", "l2", "l1"], [[.var "l2", .var "l1", .op "!="]]⟩,
+  ⟨.then_, "", [], []⟩,
+  ⟨.lock, "locks[l2]", ["locks", "l2"], [[.var "locks", .var "l2", .sub "locks[l2]"]]⟩,
+  ⟨.endIf, "", [], []⟩,
+  ⟨.checkRc, "", ["resize_counter", "locks[l1]"], [[], [.var "resize_counter"], [.var "locks", .var "l1", .sub "locks[l1]"]]⟩,
+  ⟨.rehashLock, "", ["kIsLazy", "l1"], [[], [.var "l1"]]⟩,
+  ⟨.rehashLock, "", ["kIsLazy", "l2"], [[], [.var "l2"]]⟩,
+  ⟨.ret, "", ["TwoBuckets(locks,i1,i2,normal_mode())"], [[.var "locks", .var "i1", .var "i2", .call "normal_mode" 0 "normal_mode()", .call "TwoBuckets" 4 "TwoBuckets(locks,i1,i2,normal_mode())"]]⟩
+]
+
+def bad_lock_two_no_rehash_l2 : Sk := [
+  ⟨.params, "", ["resize_counter", "i1", "i2", ""], []⟩,
+  ⟨.decl, "", ["l1", "lock_ind(i1)"], [[.var "i1", .call "lock_ind" 1 "lock_ind(i1)"]]⟩,
+  ⟨.decl, "", ["l2", "lock_ind(i2)"], [[.var "i2", .call "lock_ind" 1 "lock_ind(i2)"]]⟩,
+  ⟨.if_, "", ["<", "l2", "l1"], [[.var "l2", .var "l1", .op "<"]]⟩,
+  ⟨.then_, "", [], []⟩,
+  ⟨.swapVals, "", ["l1", "l2"], [[], [.var "l1"], [.var "l2"]]⟩,
+  ⟨.endIf, "", [], []⟩,
+  ⟨.getLocks, "", [], [[]]⟩,
+  ⟨.decl, "", ["locks", "get_current_locks()"], [[.call "get_current_locks" 0 "get_current_locks()"]]⟩,
+  ⟨.lock, "locks[l1]", ["locks", "l1"], [[.var "locks", .var "l1", .sub "locks[l1]"]]⟩,
+  ⟨.checkRc, "", ["resize_counter", "locks[l1]"], [[], [.var "resize_counter"], [.var "locks", .var "l1", .sub "locks[l1]"]]⟩,
+  ⟨.if_, "", ["!=", "l2", "l1"], [[.var "l2", .var "l1", .op "!="]]⟩,
+  ⟨.then_, "", [], []⟩,
+  ⟨.lock, "locks[l2]", ["locks", "l2"], [[.var "locks", .var "l2", .sub "locks[l2]"]]⟩,
+  ⟨.endIf, "", [], []⟩,
+  ⟨.rehashLock, "", ["kIsLazy", "l1"], [[], [.var "l1"]]⟩,
+  ⟨.ret, "", ["TwoBuckets(locks,i1,i2,normal_mode())"], [[.var "locks", .var "i1", .var "i2", .call "normal_mode" 0 "normal_mode()", .call "TwoBuckets" 4 "TwoBuckets(locks,i1,i2,normal_mode())"]]⟩
+]
+
+def bad_lock_two_descending : Sk := [
+  ⟨.params, "", ["resize_counter", "i1", "i2", ""], []⟩,
+  ⟨.decl, "", ["l1", "lock_ind(i1)"], [[.var "i1", .call "lock_ind" 1 "lock_ind(i1)"]]⟩,
+  ⟨.decl, "", ["l2", "lock_ind(i2)"], [[.var "i2", .call "lock_ind" 1 "lock_ind(i2)"]]⟩,
+  ⟨.if_, "", ["<", "l1", "l2"], [[.var "l1", .var "l2", .op "<"]]⟩,
+  ⟨.then_, "", [], []⟩,
+  ⟨.swapVals, "", ["l1", "l2"], [[], [.var "l1"], [.var "l2"]]⟩,
+  ⟨.endIf, "", [], []⟩,
+  ⟨.getLocks, "", [], [[]]⟩,
+  ⟨.decl, "", ["locks", "get_current_locks()"], [[.call "get_current_locks" 0 "get_current_locks()"]]⟩,
+  ⟨.lock, "locks[l1]", ["locks", "l1"], [[.var "locks", .var "l1", .sub "locks[l1]"]]⟩,
+  ⟨.checkRc, "", ["resize_counter", "locks[l1]"], [[], [.var "resize_counter"], [.var "locks", .var "l1", .sub "locks[l1]"]]⟩,
+  ⟨.if_, "", ["!=", "l2", "l1"], [[.var "l2", .var "l1", .op "!="]]⟩,
+  ⟨.then_, "", [], []⟩,
+  ⟨.lock, "locks[l2]", ["locks", "l2"], [[.var "locks", .var "l2", .sub "locks[l2]"]]⟩,
+  ⟨.endIf, "", [], []⟩,
+  ⟨.rehashLock, "", ["kIsLazy", "l1"], [[], [.var "l1"]]⟩,
+  ⟨.rehashLock, "", ["kIsLazy", "l2"], [[], [.var "l2"]]⟩,
+  ⟨.ret, "", ["TwoBuckets(locks,i1,i2,normal_mode())"], [[.var "locks", .var "i1", .var "i2", .call "normal_mode" 0 "normal_mode()", .call "TwoBuckets" 4 "TwoBuckets(locks,i1,i2,normal_mode())"]]⟩
+]
+
+def bad_lock_two_no_dup_guard : Sk := [
+  ⟨.params, "", ["resize_counter", "i1", "i2", ""], []⟩,
+  ⟨.decl, "", ["l1", "lock_ind(i1)"], [[.var "i1", .call "lock_ind" 1 "lock_ind(i1)"]]⟩,
+  ⟨.decl, "", ["l2", "lock_ind(i2)"], [[.var "i2", .call "lock_ind" 1 "lock_ind(i2)"]]⟩,
+  ⟨.if_, "", ["<", "l2", "l1"], [[.var "l2", .var "l1", .op "<"]]⟩,
+  ⟨.then_, "", [], []⟩,
+  ⟨.swapVals, "", ["l1", "l2"], [[], [.var "l1"], [.var "l2"]]⟩,
+  ⟨.endIf, "", [], []⟩,
+  ⟨.getLocks, "", [], [[]]⟩,
+  ⟨.decl, "", ["locks", "get_current_locks()"], [[.call "get_current_locks" 0 "get_current_locks()"]]⟩,
+  ⟨.lock, "locks[l1]", ["locks", "l1"], [[.var "locks", .var "l1", .sub "locks[l1]"]]⟩,
+  ⟨.checkRc, "", ["resize_counter", "locks[l1]"], [[], [.var "resize_counter"], [.var "locks", .var "l1", .sub "locks[l1]"]]⟩,
+  ⟨.lock, "locks[l2]", ["locks", "l2"], [[.var "locks", .var "l2", .sub "locks[l2]"]]⟩,
+  ⟨.rehashLock, "", ["kIsLazy", "l1"], [[], [.var "l1"]]⟩,
+  ⟨.rehashLock, "", ["kIsLazy", "l2"], [[], [.var "l2"]]⟩,
+  ⟨.ret, "", ["TwoBuckets(locks,i1,i2,normal_mode())"], [[.var "locks", .var "i1", .var "i2", .call "normal_mode" 0 "normal_mode()", .call "TwoBuckets" 4 "TwoBuckets(locks,i1,i2,normal_mode())"]]⟩
+]
+
+def bad_lock_three_network : Sk := [
+  ⟨.params, "", ["resize_counter", "i1", "i2", "i3", ""], []⟩,
+  ⟨.decl, "", ["l", "{{lock_ind(i1),lock_ind(i2),lock_ind(i3)}}"], [[.var "i1", .call "lock_ind" 1 "lock_ind(i1)", .var "i2", .call "lock_ind" 1 "lock_ind(i2)", .var "i3", .call "lock_ind" 1 "lock_ind(i3)", .lst 3, .lst 1]]⟩,
+  ⟨.if_, "", ["<", "l[2]", "l[1]"], [[.var "l", .num 2, .sub "l[2]", .var "l", .num 1, .sub "l[1]", .op "<"]]⟩,
+  ⟨.then_, "", [], []⟩,
+  ⟨.swapVals, "", ["l[2]", "l[1]"], [[], [.var "l", .num 2, .sub "l[2]"], [.var "l", .num 1, .sub "l[1]"]]⟩,
+  ⟨.endIf, "", [], []⟩,
+  ⟨.if_, "", ["<", "l[2]", "l[0]"], [[.var "l", .num 2, .sub "l[2]", .var "l", .num 0, .sub "l[0]", .op "<"]]⟩,
+  ⟨.then_, "", [], []⟩,
+  ⟨.swapVals, "", ["l[2]", "l[0]"], [[], [.var "l", .num 2, .sub "l[2]"], [.var "l", .num 0, .sub "l[0]"]]⟩,
+  ⟨.endIf, "", [], []⟩,
+  ⟨.getLocks, "", [], [[]]⟩,
+  ⟨.decl, "", ["locks", "get_current_locks()"], [[.call "get_current_locks" 0 "get_current_locks()"]]⟩,
+  ⟨.lock, "locks[l[0]]", ["locks", "l[0]"], [[.var "locks", .var "l", .num 0, .sub "l[0]", .sub "locks[l[0]]"]]⟩,
+  ⟨.checkRc, "", ["resize_counter", "locks[l[0]]"], [[], [.var "resize_counter"], [.var "locks", .var "l", .num 0, .sub "l[0]", .sub "locks[l[0]]"]]⟩,
+  ⟨.if_, "", ["!=", "l[1]", "l[0]"], [[.var "l", .num 1, .sub "l[1]", .var "l", .num 0, .sub "l[0]", .op "!="]]⟩,
+  ⟨.then_, "", [], []⟩,
+  ⟨.lock, "locks[l[1]]", ["locks", "l[1]"], [[.var "locks", .var "l", .num 1, .sub "l[1]", .sub "locks[l[1]]"]]⟩,
+  ⟨.endIf, "", [], []⟩,
+  ⟨.if_, "", ["!=", "l[2]", "l[1]"], [[.var "l", .num 2, .sub "l[2]", .var "l", .num 1, .sub "l[1]", .op "!="]]⟩,
+  ⟨.then_, "", [], []⟩,
+  ⟨.lock, "locks[l[2]]", ["locks", "l[2]"], [[.var "locks", .var "l", .num 2, .sub "l[2]", .sub "locks[l[2]]"]]⟩,
+  ⟨.endIf, "", [], []⟩,
+  ⟨.rehashLock, "", ["kIsLazy", "l[0]"], [[], [.var "l", .num 0, .sub "l[0]"]]⟩,
+  ⟨.rehashLock, "", ["kIsLazy", "l[1]"], [[], [.var "l", .num 1, .sub "l[1]"]]⟩,
+  ⟨.rehashLock, "", ["kIsLazy", "l[2]"], [[], [.var "l", .num 2, .sub "l[2]"]]⟩,
+  ⟨.ret, "", ["std::make_pair(TwoBuckets(locks,i1,i2,normal_mode()),LockManager((lock_ind(i3)==lock_ind(i1)||lock_ind(i3)==lock_ind(i2))?nullptr:&locks[lock_ind(i3)]))"], [[.var "locks", .var "i1", .var "i2", .call "normal_mode" 0 "normal_mode()", .call "TwoBuckets" 4 "TwoBuckets(locks,i1,i2,normal_mode())", .var "i3", .call "lock_ind" 1 "lock_ind(i3)", .var "i1", .call "lock_ind" 1 "lock_ind(i1)", .op "==", .var "i3", .call "lock_ind" 1 "lock_ind(i3)", .var "i2", .call "lock_ind" 1 "lock_ind(i2)", .op "==", .op "||", .num 0, .var "locks", .var "i3", .call "lock_ind" 1 "lock_ind(i3)", .sub "locks[lock_ind(i3)]", .op "u&", .op "?:", .call "LockManager" 1 "LockManager((lock_ind(i3)==lock_ind(i1)||lock_ind(i3)==lock_ind(i2))?nullptr:&locks[lock_ind(i3)])", .call "std::make_pair" 2 "std::make_pair(TwoBuckets(locks,i1,i2,normal_mode()),LockManager((lock_ind(i3)==lock_ind(i1)||lock_ind(i3)==lock_ind(i2))?nullptr:&locks[lock_ind(i3)]))"]]⟩
+]
+
+def bad_check_no_unlock : Sk := [
+  ⟨.params, "", ["resize_counter", "lock"], []⟩,
+  ⟨.if_, "", ["!=", "load_resize_counter()", "resize_counter"], [[.call "load_resize_counter" 0 "load_resize_counter()", .var "resize_counter", .op "!="]]⟩,
+  ⟨.loadRc, "", [], [[]]⟩,
+  ⟨.then_, "", [], []⟩,
+  ⟨.throw_, "", ["resize_counter_changed()"], [[.call "resize_counter_changed" 0 "resize_counter_changed()"]]⟩,
+  ⟨.endIf, "", [], []⟩
+]
+
+def bad_lock_all_from_end : Sk := [
+  ⟨.params, "", [""], []⟩,
+  ⟨.decl, "", ["first_locked", "all_locks_.end()"], [[.var "all_locks_", .call ".end" 1 "all_locks_.end()"]]⟩,
+  ⟨.decl, "", ["current_locks", "first_locked"], [[.var "first_locked"]]⟩,
+  ⟨.loop, "", ["while", "!=", "current_locks", "all_locks_.end()"], [[.var "current_locks", .var "all_locks_", .call ".end" 1 "all_locks_.end()", .op "!="]]⟩,
+  ⟨.do_, "", [], []⟩,
+  ⟨.decl, "", ["locks", "*current_locks"], [[.var "current_locks", .op "u*"]]⟩,
+  ⟨.loop, "", ["range", "lock", "locks"], [[.var "locks"]]⟩,
+  ⟨.do_, "", [], []⟩,
+  ⟨.lock, "lock", [], [[.var "lock"]]⟩,
+  ⟨.endLoop, "", [], []⟩,
+  ⟨.step, "", ["++current_locks", "current_locks"], [[.var "current_locks", .num 1, .op "+"]]⟩,
+  ⟨.endLoop, "", [], []⟩,
+  ⟨.ret, "", ["AllLocksManager(this,AllUnlocker{first_locked})"], [[.var "this", .var "first_locked", .call "AllUnlocker" 1 "AllUnlocker{first_locked}", .call "AllLocksManager" 2 "AllLocksManager(this,AllUnlocker{first_locked})"]]⟩
+]
+
+def bad_lock_all_other_iter : Sk := [
+  ⟨.params, "", [""], []⟩,
+  ⟨.decl, "", ["first_locked", "std::prev(all_locks_.end())"], [[.var "all_locks_", .call ".end" 1 "all_locks_.end()", .call "std::prev" 1 "std::prev(all_locks_.end())"]]⟩,
+  ⟨.decl, "", ["current_locks", "first_locked"], [[.var "first_locked"]]⟩,
+  ⟨.loop, "", ["while", "!=", "current_locks", "all_locks_.end()"], [[.var "current_locks", .var "all_locks_", .call ".end" 1 "all_locks_.end()", .op "!="]]⟩,
+  ⟨.do_, "", [], []⟩,
+  ⟨.decl, "", ["locks", "*current_locks"], [[.var "current_locks", .op "u*"]]⟩,
+  ⟨.loop, "", ["range", "lock", "locks"], [[.var "locks"]]⟩,
+  ⟨.do_, "", [], []⟩,
+  ⟨.lock, "lock", [], [[.var "lock"]]⟩,
+  ⟨.endLoop, "", [], []⟩,
+  ⟨.step, "", ["++current_locks", "current_locks"], [[.var "current_locks", .num 1, .op "+"]]⟩,
+  ⟨.endLoop, "", [], []⟩,
+  ⟨.ret, "", ["AllLocksManager(this,AllUnlocker{all_locks_.end()})"], [[.var "this", .var "all_locks_", .call ".end" 1 "all_locks_.end()", .call "AllUnlocker" 1 "AllUnlocker{all_locks_.end()}", .call "AllLocksManager" 2 "AllLocksManager(this,AllUnlocker{all_locks_.end()})"]]⟩
+]
+
+def bad_unlocker_next : Sk := [
+  ⟨.params, "", ["map"], []⟩,
+  ⟨.decl, "", ["it", "std::next(first_locked)"], [[.var "first_locked", .call "std::next" 1 "std::next(first_locked)"]]⟩,
+  ⟨.loop, "", ["for", "!=", "it", "map->all_locks_.end()"], [[.var "it", .var "map", .mem "all_locks_" "map->all_locks_", .call ".end" 1 "map->all_locks_.end()", .op "!="]]⟩,
+  ⟨.do_, "", [], []⟩,
+  ⟨.decl, "", ["locks", "*it"], [[.var "it", .op "u*"]]⟩,
+  ⟨.loop, "", ["range", "lock", "locks"], [[.var "locks"]]⟩,
+  ⟨.do_, "", [], []⟩,
+  ⟨.unlock, "lock", [], [[.var "lock"]]⟩,
+  ⟨.endLoop, "", [], []⟩,
+  ⟨.incr_, "", [], []⟩,
+  ⟨.step, "", ["++it", "it"], [[.var "it", .num 1, .op "+"]]⟩,
+  ⟨.endLoop, "", [], []⟩
+]
+
+def bad_fast_double_bump_first : Sk := [
+  ⟨.params, "", ["current_hp"], []⟩,
+  ⟨.if_, "", ["?", "!is_data_nothrow_move_constructible()"], [[.call "is_data_nothrow_move_constructible" 0 "is_data_nothrow_move_constructible()", .op "u!"]]⟩,
+  ⟨.then_, "", [], []⟩,
+  ⟨.expandSimple, "", ["TABLE_MODE,AUTO_RESIZE", "current_hp+1"], [[], [.var "current_hp", .num 1, .op "+"]]⟩,
+  ⟨.ret, "", ["cuckoo_expand_simple<TABLE_MODE,AUTO_RESIZE>(current_hp+1)"], [[.var "current_hp", .num 1, .op "+", .call "cuckoo_expand_simple" 1 "cuckoo_expand_simple<TABLE_MODE,AUTO_RESIZE>(current_hp+1)"]]⟩,
+  ⟨.endIf, "", [], []⟩,
+  ⟨.decl, "", ["new_hp", "current_hp+1"], [[.var "current_hp", .num 1, .op "+"]]⟩,
+  ⟨.lockAll, "", ["TABLE_MODE()"], [[], [.call "TABLE_MODE" 0 "TABLE_MODE()"]]⟩,
+  ⟨.decl, "", ["all_locks_manager", "lock_all(TABLE_MODE())"], [[.call "TABLE_MODE" 0 "TABLE_MODE()", .call "lock_all" 1 "lock_all(TABLE_MODE())"]]⟩,
+  ⟨.checkValidity, "", ["AUTO_RESIZE", "current_hp", "new_hp"], [[], [.var "current_hp"], [.var "new_hp"]]⟩,
+  ⟨.decl, "", ["st", "check_resize_validity<AUTO_RESIZE>(current_hp,new_hp)"], [[.var "current_hp", .var "new_hp", .call "check_resize_validity" 2 "check_resize_validity<AUTO_RESIZE>(current_hp,new_hp)"]]⟩,
+  ⟨.if_, "", ["!=", "st", "ok"], [[.var "st", .var "ok", .op "!="]]⟩,
+  ⟨.then_, "", [], []⟩,
+  ⟨.ret, "", ["st"], [[.var "st"]]⟩,
+  ⟨.endIf, "", [], []⟩,
+  ⟨.getLocks, "", [], [[]]⟩,
+  ⟨.decl, "", ["current_locks", "get_current_locks()"], [[.call "get_current_locks" 0 "get_current_locks()"]]⟩,
+  ⟨.decl, "", ["i", "0"], [[.num 0]]⟩,
+  ⟨.loop, "", ["for", "<", "i", "current_locks.size()"], [[.var "i", .var "current_locks", .call ".size" 1 "current_locks.size()", .op "<"]]⟩,
+  ⟨.do_, "", [], []⟩,
+  ⟨.rehashLock, "", ["kIsNotLazy", "i"], [[], [.var "i"]]⟩,
+  ⟨.incr_, "", [], []⟩,
+  ⟨.step, "", ["++i", "i"], [[.var "i", .num 1, .op "+"]]⟩,
+  ⟨.endLoop, "", [], []⟩,
+  ⟨.lazySet, "", ["0"], [[], [.num 0]]⟩,
+  ⟨.decl, "", ["new_buckets", "(new_hp,get_allocator())"], []⟩,
+  ⟨.maybeResizeLocks, "", ["size_type(1)<<new_hp"], [[], [.num 1, .call "size_type" 1 "size_type(1)", .var "new_hp", .op "<<"]]⟩,
+  ⟨.getLocks, "", [], [[]]⟩,
+  ⟨.decl, "", ["current_locks", "get_current_locks()"], [[.call "get_current_locks" 0 "get_current_locks()"]]⟩,
+  ⟨.bumpRc, "resize_counter_", ["1", "std::memory_order_release"], [[.var "resize_counter_"], [.num 1], [.var "std::memory_order_release"]]⟩,
+  ⟨.bucketsSwap, "old_buckets_", ["swap", "buckets_"], [[.var "old_buckets_"], [.var "buckets_"]]⟩,
+  ⟨.bucketsAssign, "", ["buckets_", "std::move(new_buckets)"], [[], [.var "new_buckets", .call "std::move" 1 "std::move(new_buckets)"]]⟩,
+  ⟨.assign, "", ["buckets_", "std::move(new_buckets)"], [[.var "new_buckets", .call "std::move" 1 "std::move(new_buckets)"]]⟩,
+  ⟨.if_, "", ["<", "old_buckets_.size()", "kMaxNumLocks"], [[.var "old_buckets_", .call ".size" 1 "old_buckets_.size()", .var "kMaxNumLocks", .op "<"]]⟩,
+  ⟨.then_, "", [], []⟩,
+  ⟨.decl, "", ["i", "0"], [[.num 0]]⟩,
+  ⟨.loop, "", ["for", "<", "i", "old_buckets_.size()"], [[.var "i", .var "old_buckets_", .call ".size" 1 "old_buckets_.size()", .op "<"]]⟩,
+  ⟨.do_, "", [], []⟩,
+  ⟨.moveBucket, "", ["old_buckets_", "buckets_", "i"], [[], [.var "old_buckets_"], [.var "buckets_"], [.var "i"]]⟩,
+  ⟨.incr_, "", [], []⟩,
+  ⟨.step, "", ["++i", "i"], [[.var "i", .num 1, .op "+"]]⟩,
+  ⟨.endLoop, "", [], []⟩,
+  ⟨.lazySet, "", ["0"], [[], [.num 0]]⟩,
+  ⟨.else_, "", [], []⟩,
+  ⟨.loop, "", ["range", "lock", "current_locks"], [[.var "current_locks"]]⟩,
+  ⟨.do_, "", [], []⟩,
+  ⟨.setMigrated, "lock", ["false"], [[.var "lock"], [.num 0]]⟩,
+  ⟨.assign, "", ["lock.is_migrated()", "false"], [[.num 0]]⟩,
+  ⟨.endLoop, "", [], []⟩,
+  ⟨.lazySet, "", ["current_locks.size()"], [[], [.var "current_locks", .call ".size" 1 "current_locks.size()"]]⟩,
+  ⟨.if_, "", ["?", "std::is_same<TABLE_MODE,locked_table_mode>::value"], [[.var "std::is_same<TABLE_MODE,locked_table_mode>::value"]]⟩,
+  ⟨.then_, "", [], []⟩,
+  ⟨.rehashWorkers, "", [], [[]]⟩,
+  ⟨.endIf, "", [], []⟩,
+  ⟨.endIf, "", [], []⟩,
+  ⟨.ret, "", ["ok"], [[.var "ok"]]⟩
+]
+
+def bad_expand_simple_no_bump : Sk := [
+  ⟨.params, "", ["new_hp"], []⟩,
+  ⟨.lockAll, "", ["TABLE_MODE()"], [[], [.call "TABLE_MODE" 0 "TABLE_MODE()"]]⟩,
+  ⟨.decl, "", ["all_locks_manager", "lock_all(TABLE_MODE())"], [[.call "TABLE_MODE" 0 "TABLE_MODE()", .call "lock_all" 1 "lock_all(TABLE_MODE())"]]⟩,
+  ⟨.hpGet, "", [], [[]]⟩,
+  ⟨.decl, "", ["hp", "hashpower()"], [[.call "hashpower" 0 "hashpower()"]]⟩,
+  ⟨.checkValidity, "", ["AUTO_RESIZE", "hp", "new_hp"], [[], [.var "hp"], [.var "new_hp"]]⟩,
+  ⟨.decl, "", ["st", "check_resize_validity<AUTO_RESIZE>(hp,new_hp)"], [[.var "hp", .var "new_hp", .call "check_resize_validity" 2 "check_resize_validity<AUTO_RESIZE>(hp,new_hp)"]]⟩,
+  ⟨.if_, "", ["!=", "st", "ok"], [[.var "st", .var "ok", .op "!="]]⟩,
+  ⟨.then_, "", [], []⟩,
+  ⟨.ret, "", ["st"], [[.var "st"]]⟩,
+  ⟨.endIf, "", [], []⟩,
+  ⟨.rehashWorkers, "", [], [[]]⟩,
+  ⟨.decl, "", ["new_map", "(hashsize(new_hp)*slot_per_bucket(),hash_function(),key_eq(),get_allocator())"], []⟩,
+  ⟨.parallelExec, "", [], []⟩,
+  ⟨.lambda_, "", [], []⟩,
+  ⟨.try_, "", [], []⟩,
+  ⟨.loop, "", ["for", "<", "i", "end"], [[.var "i", .var "end", .op "<"]]⟩,
+  ⟨.do_, "", [], []⟩,
+  ⟨.bucketAt, "", ["buckets_", "i"], [[], [.var "i"]]⟩,
+  ⟨.decl, "", ["bucket", "buckets_[i]", "buckets_", "i"], [[.var "buckets_", .var "i", .sub "buckets_[i]"]]⟩,
+  ⟨.decl, "", ["j", "0"], [[.num 0]]⟩,
+  ⟨.loop, "", ["for", "<", "j", "slot_per_bucket()"], [[.var "j", .call "slot_per_bucket" 0 "slot_per_bucket()", .op "<"]]⟩,
+  ⟨.do_, "", [], []⟩,
+  ⟨.if_, "", ["?", "bucket.occupied(j)"], [[.var "bucket", .var "j", .call ".occupied" 2 "bucket.occupied(j)"]]⟩,
+  ⟨.then_, "", [], []⟩,
+  ⟨.endIf, "", [], []⟩,
+  ⟨.incr_, "", [], []⟩,
+  ⟨.step, "", ["++j", "j"], [[.var "j", .num 1, .op "+"]]⟩,
+  ⟨.endLoop, "", [], []⟩,
+  ⟨.incr_, "", [], []⟩,
+  ⟨.step, "", ["++i", "i"], [[.var "i", .num 1, .op "+"]]⟩,
+  ⟨.endLoop, "", [], []⟩,
+  ⟨.catch_, "", ["..."], []⟩,
+  ⟨.assign, "", ["eptr", "std::current_exception()"], [[.call "std::current_exception" 0 "std::current_exception()"]]⟩,
+  ⟨.endTry, "", [], []⟩,
+  ⟨.endLambda, "", [], []⟩,
+  ⟨.rehashWorkers, "new_map", [], [[.var "new_map"]]⟩,
+  ⟨.maybeResizeLocks, "", ["new_map.bucket_count()"], [[], [.var "new_map", .call ".bucket_count" 1 "new_map.bucket_count()"]]⟩,
+  ⟨.bucketsSwap, "buckets_", ["swap", "new_map.buckets_"], [[.var "buckets_"], [.var "new_map", .mem "buckets_" "new_map.buckets_"]]⟩,
+  ⟨.ret, "", ["ok"], [[.var "ok"]]⟩
+]
+
+def bad_expand_simple_temp_manager : Sk := [
+  ⟨.params, "", ["new_hp"], []⟩,
+  ⟨.lockAll, "", ["TABLE_MODE()"], [[], [.call "TABLE_MODE" 0 "TABLE_MODE()"]]⟩,
+  ⟨.hpGet, "", [], [[]]⟩,
+  ⟨.decl, "", ["hp", "hashpower()"], [[.call "hashpower" 0 "hashpower()"]]⟩,
+  ⟨.checkValidity, "", ["AUTO_RESIZE", "hp", "new_hp"], [[], [.var "hp"], [.var "new_hp"]]⟩,
+  ⟨.decl, "", ["st", "check_resize_validity<AUTO_RESIZE>(hp,new_hp)"], [[.var "hp", .var "new_hp", .call "check_resize_validity" 2 "check_resize_validity<AUTO_RESIZE>(hp,new_hp)"]]⟩,
+  ⟨.if_, "", ["!=", "st", "ok"], [[.var "st", .var "ok", .op "!="]]⟩,
+  ⟨.then_, "", [], []⟩,
+  ⟨.ret, "", ["st"], [[.var "st"]]⟩,
+  ⟨.endIf, "", [], []⟩,
+  ⟨.rehashWorkers, "", [], [[]]⟩,
+  ⟨.decl, "", ["new_map", "(hashsize(new_hp)*slot_per_bucket(),hash_function(),key_eq(),get_allocator())"], []⟩,
+  ⟨.parallelExec, "", [], []⟩,
+  ⟨.lambda_, "", [], []⟩,
+  ⟨.try_, "", [], []⟩,
+  ⟨.loop, "", ["for", "<", "i", "end"], [[.var "i", .var "end", .op "<"]]⟩,
+  ⟨.do_, "", [], []⟩,
+  ⟨.bucketAt, "", ["buckets_", "i"], [[], [.var "i"]]⟩,
+  ⟨.decl, "", ["bucket", "buckets_[i]", "buckets_", "i"], [[.var "buckets_", .var "i", .sub "buckets_[i]"]]⟩,
+  ⟨.decl, "", ["j", "0"], [[.num 0]]⟩,
+  ⟨.loop, "", ["for", "<", "j", "slot_per_bucket()"], [[.var "j", .call "slot_per_bucket" 0 "slot_per_bucket()", .op "<"]]⟩,
+  ⟨.do_, "", [], []⟩,
+  ⟨.if_, "", ["?", "bucket.occupied(j)"], [[.var "bucket", .var "j", .call ".occupied" 2 "bucket.occupied(j)"]]⟩,
+  ⟨.then_, "", [], []⟩,
+  ⟨.endIf, "", [], []⟩,
+  ⟨.incr_, "", [], []⟩,
+  ⟨.step, "", ["++j", "j"], [[.var "j", .num 1, .op "+"]]⟩,
+  ⟨.endLoop, "", [], []⟩,
+  ⟨.incr_, "", [], []⟩,
+  ⟨.step, "", ["++i", "i"], [[.var "i", .num 1, .op "+"]]⟩,
+  ⟨.endLoop, "", [], []⟩,
+  ⟨.catch_, "", ["..."], []⟩,
+  ⟨.assign, "", ["eptr", "std::current_exception()"], [[.call "std::current_exception" 0 "std::current_exception()"]]⟩,
+  ⟨.endTry, "", [], []⟩,
+  ⟨.endLambda, "", [], []⟩,
+  ⟨.rehashWorkers, "new_map", [], [[.var "new_map"]]⟩,
+  ⟨.maybeResizeLocks, "", ["new_map.bucket_count()"], [[], [.var "new_map", .call ".bucket_count" 1 "new_map.bucket_count()"]]⟩,
+  ⟨.bucketsSwap, "buckets_", ["swap", "new_map.buckets_"], [[.var "buckets_"], [.var "new_map", .mem "buckets_" "new_map.buckets_"]]⟩,
+  ⟨.bumpRc, "resize_counter_", ["1", "std::memory_order_release"], [[.var "resize_counter_"], [.num 1], [.var "std::memory_order_release"]]⟩,
+  ⟨.ret, "", ["ok"], [[.var "ok"]]⟩
+]
+
+def bad_maybe_resize_emplace_first : Sk := [
+  ⟨.params, "", ["new_bucket_count"], []⟩,
+  ⟨.getLocks, "", [], [[]]⟩,
+  ⟨.decl, "", ["current_locks", "get_current_locks()"], [[.call "get_current_locks" 0 "get_current_locks()"]]⟩,
+  ⟨.if_, "", ["?", "!(current_locks.size()<kMaxNumLocks&&current_locks.size()<new_bucket_count)"], [[.var "current_locks", .call ".size" 1 "current_locks.size()", .var "kMaxNumLocks", .op "<", .var "current_locks", .call ".size" 1 "current_locks.size()", .var "new_bucket_count", .op "<", .op "&&", .op "u!"]]⟩,
+  ⟨.then_, "", [], []⟩,
+  ⟨.ret, "", [], []⟩,
+  ⟨.endIf, "", [], []⟩,
+  ⟨.decl, "", ["new_locks", "(get_allocator())"], []⟩,
+  ⟨.resizeVec, "new_locks", ["std::min(size_type(kMaxNumLocks),new_bucket_count)"], [[.var "new_locks"], [.var "kMaxNumLocks", .call "size_type" 1 "size_type(kMaxNumLocks)", .var "new_bucket_count", .call "std::min" 2 "std::min(size_type(kMaxNumLocks),new_bucket_count)"]]⟩,
+  ⟨.emplaceBack, "all_locks_", ["std::move(new_locks)"], [[.var "all_locks_"], [.var "new_locks", .call "std::move" 1 "std::move(new_locks)"]]⟩,
+  ⟨.locksBack, "all_locks_", [], [[.var "all_locks_"]]⟩,
+  ⟨.loop, "", ["range", "lock", "all_locks_.back()"], [[.var "all_locks_", .call ".back" 1 "all_locks_.back()"]]⟩,
+  ⟨.do_, "", [], []⟩,
+  ⟨.lock, "lock", [], [[.var "lock"]]⟩,
+  ⟨.endLoop, "", [], []⟩
+]
+
+def bad_istream_no_bump : Sk := [
+  ⟨.params, "", ["is", "lt"], []⟩,
+  ⟨.streamIn, "", ["is", "lt.buckets()"], [[.var "is"], [.var "lt", .call ".buckets" 1 "lt.buckets()"]]⟩,
+  ⟨.bucketsRef, "lt", [], [[.var "lt"]]⟩,
+  ⟨.maybeResizeLocks, "lt", ["lt.bucket_count()"], [[.var "lt"], [.var "lt", .call ".bucket_count" 1 "lt.bucket_count()"]]⟩,
+  ⟨.getLocks, "lt", [], [[.var "lt"]]⟩,
+  ⟨.loop, "", ["range", "lock", "lt.get_current_locks()"], [[.var "lt", .call ".get_current_locks" 1 "lt.get_current_locks()"]]⟩,
+  ⟨.do_, "", [], []⟩,
+  ⟨.assign, "", ["lock.elem_counter()", "0"], [[.num 0]]⟩,
+  ⟨.endLoop, "", [], []⟩,
+  ⟨.decl, "", ["size", ""], []⟩,
+  ⟨.if_, "", [">", "size", "0"], [[.var "size", .num 0, .op ">"]]⟩,
+  ⟨.then_, "", [], []⟩,
+  ⟨.getLocks, "lt", [], [[.var "lt"]]⟩,
+  ⟨.assign, "", ["lt.get_current_locks()[0].elem_counter()", "size"], [[.var "size"]]⟩,
+  ⟨.endIf, "", [], []⟩,
+  ⟨.decl, "", ["mlf", ""], []⟩,
+  ⟨.decl, "", ["mhp", ""], []⟩,
+  ⟨.ret, "", ["is"], [[.var "is"]]⟩
+]
+
+def bad_rehash_lock_dec_first : Sk := [
+  ⟨.params, "", ["l"], []⟩,
+  ⟨.getLocks, "", [], [[]]⟩,
+  ⟨.decl, "", ["locks", "get_current_locks()"], [[.call "get_current_locks" 0 "get_current_locks()"]]⟩,
+  ⟨.decl, "", ["lock", "locks[l]", "locks", "l"], [[.var "locks", .var "l", .sub "locks[l]"]]⟩,
+  ⟨.if_, "", ["?", "lock.is_migrated()"], [[.var "lock", .call ".is_migrated" 1 "lock.is_migrated()"]]⟩,
+  ⟨.isMigrated, "lock", [], [[.var "lock"]]⟩,
+  ⟨.then_, "", [], []⟩,
+  ⟨.ret, "", [], []⟩,
+  ⟨.endIf, "", [], []⟩,
+  ⟨.if_, "", ["?", "IS_LAZY"], [[.var "IS_LAZY"]]⟩,
+  ⟨.then_, "", [], []⟩,
+  ⟨.lazyDec, "", [], [[]]⟩,
+  ⟨.endIf, "", [], []⟩,
+  ⟨.decl, "", ["bucket_ind", "l"], [[.var "l"]]⟩,
+  ⟨.loop, "", ["for", "<", "bucket_ind", "old_buckets_.size()"], [[.var "bucket_ind", .var "old_buckets_", .call ".size" 1 "old_buckets_.size()", .op "<"]]⟩,
+  ⟨.do_, "", [], []⟩,
+  ⟨.moveBucket, "", ["old_buckets_", "buckets_", "bucket_ind"], [[], [.var "old_buckets_"], [.var "buckets_"], [.var "bucket_ind"]]⟩,
+  ⟨.incr_, "", [], []⟩,
+  ⟨.step, "", ["bucket_ind+=kMaxNumLocks", "bucket_ind"], [[.var "bucket_ind", .var "kMaxNumLocks", .op "+"]]⟩,
+  ⟨.endLoop, "", [], []⟩,
+  ⟨.setMigrated, "lock", ["true"], [[.var "lock"], [.num 1]]⟩,
+  ⟨.assign, "", ["lock.is_migrated()", "true"], [[.num 1]]⟩
+]
+
+def bad_two_buckets_one_reset : Sk := [
+  ⟨.params, "", [], []⟩,
+  ⟨.reset, "first_manager_", [], [[.var "first_manager_"]]⟩
+]
+
+def bad_clear_before_lock : Sk := [
+  ⟨.params, "", [], []⟩,
+  ⟨.cuckooClear, "", [], [[]]⟩,
+  ⟨.lockAll, "", ["normal_mode()"], [[], [.call "normal_mode" 0 "normal_mode()"]]⟩,
+  ⟨.decl, "", ["all_locks_manager", "lock_all(normal_mode())"], [[.call "normal_mode" 0 "normal_mode()", .call "lock_all" 1 "lock_all(normal_mode())"]]⟩
+]
+
+def bad_slot_search_read_first : Sk := [
+  ⟨.params, "", ["hp", "resize_counter", "i1", "i2"], []⟩,
+  ⟨.decl, "", ["q", ""], []⟩,
+  ⟨.loop, "", ["while", "?", "!q.empty()"], [[.var "q", .call ".empty" 1 "q.empty()", .op "u!"]]⟩,
+  ⟨.do_, "", [], []⟩,
+  ⟨.decl, "", ["x", "q.dequeue()"], [[.var "q", .call ".dequeue" 1 "q.dequeue()"]]⟩,
+  ⟨.bucketAt, "", ["buckets_", "x.bucket"], [[], [.var "x", .mem "bucket" "x.bucket"]]⟩,
+  ⟨.decl, "", ["b", "buckets_[x.bucket]", "buckets_", "x.bucket"], [[.var "buckets_", .var "x", .mem "bucket" "x.bucket", .sub "buckets_[x.bucket]"]]⟩,
+  ⟨.lockOne, "", ["resize_counter", "x.bucket", "TABLE_MODE()"], [[], [.var "resize_counter"], [.var "x", .mem "bucket" "x.bucket"], [.call "TABLE_MODE" 0 "TABLE_MODE()"]]⟩,
+  ⟨.decl, "", ["lock_manager", "lock_one(resize_counter,x.bucket,TABLE_MODE())"], [[.var "resize_counter", .var "x", .mem "bucket" "x.bucket", .call "TABLE_MODE" 0 "TABLE_MODE()", .call "lock_one" 3 "lock_one(resize_counter,x.bucket,TABLE_MODE())"]]⟩,
+  ⟨.decl, "", ["starting_slot", "x.pathcode%slot_per_bucket()"], [[.var "x", .mem "pathcode" "x.pathcode", .call "slot_per_bucket" 0 "slot_per_bucket()", .op "%"]]⟩,
+  ⟨.decl, "", ["i", "0"], [[.num 0]]⟩,
+  ⟨.loop, "", ["for", "<", "i", "slot_per_bucket()"], [[.var "i", .call "slot_per_bucket" 0 "slot_per_bucket()", .op "<"]]⟩,
+  ⟨.do_, "", [], []⟩,
+  ⟨.decl, "", ["slot", "(starting_slot+i)%slot_per_bucket()"], [[.var "starting_slot", .var "i", .op "+", .call "slot_per_bucket" 0 "slot_per_bucket()", .op "%"]]⟩,
+  ⟨.if_, "", ["?", "!b.occupied(slot)"], [[.var "b", .var "slot", .call ".occupied" 2 "b.occupied(slot)", .op "u!"]]⟩,
+  ⟨.then_, "", [], []⟩,
+  ⟨.assign, "", ["x.pathcode", "x.pathcode*slot_per_bucket()+slot"], [[.var "x", .mem "pathcode" "x.pathcode", .call "slot_per_bucket" 0 "slot_per_bucket()", .op "*", .var "slot", .op "+"]]⟩,
+  ⟨.ret, "", ["x"], [[.var "x"]]⟩,
+  ⟨.endIf, "", [], []⟩,
+  ⟨.decl, "", ["partial", "b.partial(slot)"], [[.var "b", .var "slot", .call ".partial" 2 "b.partial(slot)"]]⟩,
+  ⟨.if_, "", ["<", "x.depth", "MAX_BFS_PATH_LEN-1"], [[.var "x", .mem "depth" "x.depth", .var "MAX_BFS_PATH_LEN", .num 1, .op "-", .op "<"]]⟩,
+  ⟨.then_, "", [], []⟩,
+  ⟨.decl, "", ["y", "(alt_index(hp,partial,x.bucket),x.pathcode*slot_per_bucket()+slot,x.depth+1)"], []⟩,
+  ⟨.endIf, "", [], []⟩,
+  ⟨.incr_, "", [], []⟩,
+  ⟨.step, "", ["++i", "i"], [[.var "i", .num 1, .op "+"]]⟩,
+  ⟨.endLoop, "", [], []⟩,
+  ⟨.endLoop, "", [], []⟩,
+  ⟨.ret, "", ["b_slot(0,0,-1)"], [[.num 0, .num 0, .num 1, .op "u-", .call "b_slot" 3 "b_slot(0,0,-1)"]]⟩
+]
+
+def alt_lock_all_for : Sk := [
+  ⟨.params, "", [""], []⟩,
+  ⟨.decl, "", ["first_locked", "std::prev(all_locks_.end())"], [[.var "all_locks_", .call ".end" 1 "all_locks_.end()", .call "std::prev" 1 "std::prev(all_locks_.end())"]]⟩,
+  ⟨.decl, "", ["locks_it", "first_locked"], [[.var "first_locked"]]⟩,
+  ⟨.loop, "", ["for", "!=", "locks_it", "all_locks_.end()"], [[.var "locks_it", .var "all_locks_", .call ".end" 1 "all_locks_.end()", .op "!="]]⟩,
+  ⟨.do_, "", [], []⟩,
+  ⟨.loop, "", ["range", "lock", "*locks_it"], [[.var "locks_it", .op "u*"]]⟩,
+  ⟨.do_, "", [], []⟩,
+  ⟨.lock, "lock", [], [[.var "lock"]]⟩,
+  ⟨.endLoop, "", [], []⟩,
+  ⟨.incr_, "", [], []⟩,
+  ⟨.step, "", ["++locks_it", "locks_it"], [[.var "locks_it", .num 1, .op "+"]]⟩,
+  ⟨.endLoop, "", [], []⟩,
+  ⟨.ret, "", ["AllLocksManager(this,AllUnlocker{first_locked})"], [[.var "this", .var "first_locked", .call "AllUnlocker" 1 "AllUnlocker{first_locked}", .call "AllLocksManager" 2 "AllLocksManager(this,AllUnlocker{first_locked})"]]⟩
+]
+
+def alt_unlocker_for_each : Sk := [
+  ⟨.params, "", ["map"], []⟩,
+  ⟨.decl, "", ["locks_it", "first_locked"], [[.var "first_locked"]]⟩,
+  ⟨.loop, "", ["while", "!=", "locks_it", "map->all_locks_.end()"], [[.var "locks_it", .var "map", .mem "all_locks_" "map->all_locks_", .call ".end" 1 "map->all_locks_.end()", .op "!="]]⟩,
+  ⟨.do_, "", [], []⟩,
+  ⟨.loop, "", ["range", "lock", "*locks_it"], [[.var "locks_it", .op "u*"]]⟩,
+  ⟨.do_, "", [], []⟩,
+  ⟨.unlock, "lock", [], [[.var "lock"]]⟩,
+  ⟨.endLoop, "", [], []⟩,
+  ⟨.step, "", ["++locks_it", "locks_it"], [[.var "locks_it", .num 1, .op "+"]]⟩,
+  ⟨.endLoop, "", [], []⟩
+]
+
+def alt_lock_three_locals : Sk := [
+  ⟨.params, "", ["resize_counter", "i1", "i2", "i3", ""], []⟩,
+  ⟨.decl, "", ["l1", "lock_ind(i1)"], [[.var "i1", .call "lock_ind" 1 "lock_ind(i1)"]]⟩,
+  ⟨.decl, "", ["l2", "lock_ind(i2)"], [[.var "i2", .call "lock_ind" 1 "lock_ind(i2)"]]⟩,
+  ⟨.decl, "", ["l3", "lock_ind(i3)"], [[.var "i3", .call "lock_ind" 1 "lock_ind(i3)"]]⟩,
+  ⟨.decl, "", ["lo", "l1"], [[.var "l1"]]⟩,
+  ⟨.decl, "", ["mid", "l2"], [[.var "l2"]]⟩,
+  ⟨.decl, "", ["hi", "l3"], [[.var "l3"]]⟩,
+  ⟨.if_, "", ["<", "hi", "mid"], [[.var "hi", .var "mid", .op "<"]]⟩,
+  ⟨.then_, "", [], []⟩,
+  ⟨.swapVals, "", ["hi", "mid"], [[], [.var "hi"], [.var "mid"]]⟩,
+  ⟨.endIf, "", [], []⟩,
+  ⟨.if_, "", ["<", "hi", "lo"], [[.var "hi", .var "lo", .op "<"]]⟩,
+  ⟨.then_, "", [], []⟩,
+  ⟨.swapVals, "", ["hi", "lo"], [[], [.var "hi"], [.var "lo"]]⟩,
+  ⟨.endIf, "", [], []⟩,
+  ⟨.if_, "", ["<", "mid", "lo"], [[.var "mid", .var "lo", .op "<"]]⟩,
+  ⟨.then_, "", [], []⟩,
+  ⟨.swapVals, "", ["mid", "lo"], [[], [.var "mid"], [.var "lo"]]⟩,
+  ⟨.endIf, "", [], []⟩,
+  ⟨.getLocks, "", [], [[]]⟩,
+  ⟨.decl, "", ["locks", "get_current_locks()"], [[.call "get_current_locks" 0 "get_current_locks()"]]⟩,
+  ⟨.lock, "locks[lo]", ["locks", "lo"], [[.var "locks", .var "lo", .sub "locks[lo]"]]⟩,
+  ⟨.checkRc, "", ["resize_counter", "locks[lo]"], [[], [.var "resize_counter"], [.var "locks", .var "lo", .sub "locks[lo]"]]⟩,
+  ⟨.if_, "", ["!=", "mid", "lo"], [[.var "mid", .var "lo", .op "!="]]⟩,
+  ⟨.then_, "", [], []⟩,
+  ⟨.lock, "locks[mid]", ["locks", "mid"], [[.var "locks", .var "mid", .sub "locks[mid]"]]⟩,
+  ⟨.endIf, "", [], []⟩,
+  ⟨.if_, "", ["!=", "hi", "mid"], [[.var "hi", .var "mid", .op "!="]]⟩,
+  ⟨.then_, "", [], []⟩,
+  ⟨.lock, "locks[hi]", ["locks", "hi"], [[.var "locks", .var "hi", .sub "locks[hi]"]]⟩,
+  ⟨.endIf, "", [], []⟩,
+  ⟨.rehashLock, "", ["kIsLazy", "lo"], [[], [.var "lo"]]⟩,
+  ⟨.rehashLock, "", ["kIsLazy", "mid"], [[], [.var "mid"]]⟩,
+  ⟨.rehashLock, "", ["kIsLazy", "hi"], [[], [.var "hi"]]⟩,
+  ⟨.decl, "", ["i3_has_own_lock", "!(l3==l1||l3==l2)"], [[.var "l3", .var "l1", .op "==", .var "l3", .var "l2", .op "==", .op "||", .op "u!"]]⟩,
+  ⟨.ret, "", ["std::make_pair(TwoBuckets(locks,i1,i2,normal_mode()),LockManager(i3_has_own_lock?&locks[l3]:nullptr))"], [[.var "locks", .var "i1", .var "i2", .call "normal_mode" 0 "normal_mode()", .call "TwoBuckets" 4 "TwoBuckets(locks,i1,i2,normal_mode())", .var "i3_has_own_lock", .var "locks", .var "l3", .sub "locks[l3]", .op "u&", .num 0, .op "?:", .call "LockManager" 1 "LockManager(i3_has_own_lock?&locks[l3]:nullptr)", .call "std::make_pair" 2 "std::make_pair(TwoBuckets(locks,i1,i2,normal_mode()),LockManager(i3_has_own_lock?&locks[l3]:nullptr))"]]⟩
+]
+
+def alt_lock_two_minmax : Sk := [
+  ⟨.params, "", ["resize_counter", "i1", "i2", ""], []⟩,
+  ⟨.decl, "", ["la", "lock_ind(i1)"], [[.var "i1", .call "lock_ind" 1 "lock_ind(i1)"]]⟩,
+  ⟨.decl, "", ["lb", "lock_ind(i2)"], [[.var "i2", .call "lock_ind" 1 "lock_ind(i2)"]]⟩,
+  ⟨.decl, "", ["l1", "std::min(la,lb)"], [[.var "la", .var "lb", .call "std::min" 2 "std::min(la,lb)"]]⟩,
+  ⟨.decl, "", ["l2", "std::max(la,lb)"], [[.var "la", .var "lb", .call "std::max" 2 "std::max(la,lb)"]]⟩,
+  ⟨.getLocks, "", [], [[]]⟩,
+  ⟨.decl, "", ["locks", "get_current_locks()"], [[.call "get_current_locks" 0 "get_current_locks()"]]⟩,
+  ⟨.decl, "", ["first_lock", "locks[l1]", "locks", "l1"], [[.var "locks", .var "l1", .sub "locks[l1]"]]⟩,
+  ⟨.lock, "first_lock", [], [[.var "first_lock"]]⟩,
+  ⟨.checkRc, "", ["resize_counter", "first_lock"], [[], [.var "resize_counter"], [.var "first_lock"]]⟩,
+  ⟨.if_, "", ["!=", "l1", "l2"], [[.var "l1", .var "l2", .op "!="]]⟩,
+  ⟨.then_, "", [], []⟩,
+  ⟨.lock, "locks[l2]", ["locks", "l2"], [[.var "locks", .var "l2", .sub "locks[l2]"]]⟩,
+  ⟨.endIf, "", [], []⟩,
+  ⟨.rehashLock, "", ["kIsLazy", "l1"], [[], [.var "l1"]]⟩,
+  ⟨.rehashLock, "", ["kIsLazy", "l2"], [[], [.var "l2"]]⟩,
+  ⟨.ret, "", ["TwoBuckets(locks,i1,i2,normal_mode())"], [[.var "locks", .var "i1", .var "i2", .call "normal_mode" 0 "normal_mode()", .call "TwoBuckets" 4 "TwoBuckets(locks,i1,i2,normal_mode())"]]⟩
+]
+
+def alt_check_early_return : Sk := [
+  ⟨.params, "", ["resize_counter", "lock"], []⟩,
+  ⟨.if_, "", ["==", "load_resize_counter()", "resize_counter"], [[.call "load_resize_counter" 0 "load_resize_counter()", .var "resize_counter", .op "=="]]⟩,
+  ⟨.loadRc, "", [], [[]]⟩,
+  ⟨.then_, "", [], []⟩,
+  ⟨.ret, "", [], []⟩,
+  ⟨.endIf, "", [], []⟩,
+  ⟨.unlock, "lock", [], [[.var "lock"]]⟩,
+  ⟨.throw_, "", ["resize_counter_changed()"], [[.call "resize_counter_changed" 0 "resize_counter_changed()"]]⟩
+]
+
+def alt_maybe_resize_index_loop : Sk := [
+  ⟨.params, "", ["new_bucket_count"], []⟩,
+  ⟨.getLocks, "", [], [[]]⟩,
+  ⟨.decl, "", ["current_locks", "get_current_locks()"], [[.call "get_current_locks" 0 "get_current_locks()"]]⟩,
+  ⟨.decl, "", ["num_current_locks", "current_locks.size()"], [[.var "current_locks", .call ".size" 1 "current_locks.size()"]]⟩,
+  ⟨.if_, "", ["?", "num_current_locks>=kMaxNumLocks||num_current_locks>=new_bucket_count"], [[.var "num_current_locks", .var "kMaxNumLocks", .op ">=", .var "num_current_locks", .var "new_bucket_count", .op ">=", .op "||"]]⟩,
+  ⟨.then_, "", [], []⟩,
+  ⟨.ret, "", [], []⟩,
+  ⟨.endIf, "", [], []⟩,
+  ⟨.decl, "", ["num_new_locks", "new_bucket_count<kMaxNumLocks?new_bucket_count:size_type(kMaxNumLocks)"], [[.var "new_bucket_count", .var "kMaxNumLocks", .op "<", .var "new_bucket_count", .var "kMaxNumLocks", .call "size_type" 1 "size_type(kMaxNumLocks)", .op "?:"]]⟩,
+  ⟨.decl, "", ["new_locks", "(get_allocator())"], []⟩,
+  ⟨.resizeVec, "new_locks", ["num_new_locks"], [[.var "new_locks"], [.var "num_new_locks"]]⟩,
+  ⟨.decl, "", ["i", "0"], [[.num 0]]⟩,
+  ⟨.loop, "", ["for", "<", "i", "num_new_locks"], [[.var "i", .var "num_new_locks", .op "<"]]⟩,
+  ⟨.do_, "", [], []⟩,
+  ⟨.lock, "new_locks[i]", ["new_locks", "i"], [[.var "new_locks", .var "i", .sub "new_locks[i]"]]⟩,
+  ⟨.incr_, "", [], []⟩,
+  ⟨.step, "", ["++i", "i"], [[.var "i", .num 1, .op "+"]]⟩,
+  ⟨.endLoop, "", [], []⟩,
+  ⟨.emplaceBack, "all_locks_", ["std::move(new_locks)"], [[.var "all_locks_"], [.var "new_locks", .call "std::move" 1 "std::move(new_locks)"]]⟩
+]
+
+def alt_cuckoopath_move_flipped : Sk := [
+  ⟨.params, "", ["resize_counter", "cuckoo_path", "depth", "b"], []⟩,
+  ⟨.if_, "", ["==", "depth", "0"], [[.var "depth", .num 0, .op "=="]]⟩,
+  ⟨.then_, "", [], []⟩,
+  ⟨.decl, "", ["bucket_i", "cuckoo_path[0].bucket"], [[.var "cuckoo_path", .num 0, .sub "cuckoo_path[0]", .mem "bucket" "cuckoo_path[0].bucket"]]⟩,
+  ⟨.lockTwo, "", ["resize_counter", "b.i1", "b.i2", "TABLE_MODE()"], [[], [.var "resize_counter"], [.var "b", .mem "i1" "b.i1"], [.var "b", .mem "i2" "b.i2"], [.call "TABLE_MODE" 0 "TABLE_MODE()"]]⟩,
+  ⟨.assign, "", ["b", "lock_two(resize_counter,b.i1,b.i2,TABLE_MODE())"], [[.var "resize_counter", .var "b", .mem "i1" "b.i1", .var "b", .mem "i2" "b.i2", .call "TABLE_MODE" 0 "TABLE_MODE()", .call "lock_two" 4 "lock_two(resize_counter,b.i1,b.i2,TABLE_MODE())"]]⟩,
+  ⟨.if_, "", ["?", "buckets_[bucket_i].occupied(cuckoo_path[0].slot)"], [[.var "buckets_", .var "bucket_i", .sub "buckets_[bucket_i]", .var "cuckoo_path", .num 0, .sub "cuckoo_path[0]", .mem "slot" "cuckoo_path[0].slot", .call ".occupied" 2 "buckets_[bucket_i].occupied(cuckoo_path[0].slot)"]]⟩,
+  ⟨.bucketAt, "", ["buckets_", "bucket_i"], [[], [.var "bucket_i"]]⟩,
+  ⟨.then_, "", [], []⟩,
+  ⟨.unlock, "b", [], [[.var "b"]]⟩,
+  ⟨.ret, "", ["false"], [[.num 0]]⟩,
+  ⟨.endIf, "", [], []⟩,
+  ⟨.ret, "", ["true"], [[.num 1]]⟩,
+  ⟨.endIf, "", [], []⟩,
+  ⟨.loop, "", ["while", ">", "depth", "0"], [[.var "depth", .num 0, .op ">"]]⟩,
+  ⟨.do_, "", [], []⟩,
+  ⟨.decl, "", ["from", "cuckoo_path[depth-1]", "cuckoo_path", "depth-1"], [[.var "cuckoo_path", .var "depth", .num 1, .op "-", .sub "cuckoo_path[depth-1]"]]⟩,
+  ⟨.decl, "", ["to", "cuckoo_path[depth]", "cuckoo_path", "depth"], [[.var "cuckoo_path", .var "depth", .sub "cuckoo_path[depth]"]]⟩,
+  ⟨.decl, "", ["fs", "from.slot"], [[.var "from", .mem "slot" "from.slot"]]⟩,
+  ⟨.decl, "", ["ts", "to.slot"], [[.var "to", .mem "slot" "to.slot"]]⟩,
+  ⟨.decl, "", ["hop_locks", ""], []⟩,
+  ⟨.decl, "", ["third_lock", ""], []⟩,
+  ⟨.if_, "", ["==", "depth", "1"], [[.var "depth", .num 1, .op "=="]]⟩,
+  ⟨.then_, "", [], []⟩,
+  ⟨.lockThree, "", ["resize_counter", "b.i1", "b.i2", "to.bucket", "TABLE_MODE()"], [[], [.var "resize_counter"], [.var "b", .mem "i1" "b.i1"], [.var "b", .mem "i2" "b.i2"], [.var "to", .mem "bucket" "to.bucket"], [.call "TABLE_MODE" 0 "TABLE_MODE()"]]⟩,
+  ⟨.assign, "", ["std::tie(hop_locks,third_lock)", "lock_three(resize_counter,b.i1,b.i2,to.bucket,TABLE_MODE())"], [[.var "resize_counter", .var "b", .mem "i1" "b.i1", .var "b", .mem "i2" "b.i2", .var "to", .mem "bucket" "to.bucket", .call "TABLE_MODE" 0 "TABLE_MODE()", .call "lock_three" 5 "lock_three(resize_counter,b.i1,b.i2,to.bucket,TABLE_MODE())"]]⟩,
+  ⟨.else_, "", [], []⟩,
+  ⟨.lockTwo, "", ["resize_counter", "from.bucket", "to.bucket", "TABLE_MODE()"], [[], [.var "resize_counter"], [.var "from", .mem "bucket" "from.bucket"], [.var "to", .mem "bucket" "to.bucket"], [.call "TABLE_MODE" 0 "TABLE_MODE()"]]⟩,
+  ⟨.assign, "", ["hop_locks", "lock_two(resize_counter,from.bucket,to.bucket,TABLE_MODE())"], [[.var "resize_counter", .var "from", .mem "bucket" "from.bucket", .var "to", .mem "bucket" "to.bucket", .call "TABLE_MODE" 0 "TABLE_MODE()", .call "lock_two" 4 "lock_two(resize_counter,from.bucket,to.bucket,TABLE_MODE())"]]⟩,
+  ⟨.endIf, "", [], []⟩,
+  ⟨.bucketAt, "", ["buckets_", "from.bucket"], [[], [.var "from", .mem "bucket" "from.bucket"]]⟩,
+  ⟨.decl, "", ["fb", "buckets_[from.bucket]", "buckets_", "from.bucket"], [[.var "buckets_", .var "from", .mem "bucket" "from.bucket", .sub "buckets_[from.bucket]"]]⟩,
+  ⟨.bucketAt, "", ["buckets_", "to.bucket"], [[], [.var "to", .mem "bucket" "to.bucket"]]⟩,
+  ⟨.decl, "", ["tb", "buckets_[to.bucket]", "buckets_", "to.bucket"], [[.var "buckets_", .var "to", .mem "bucket" "to.bucket", .sub "buckets_[to.bucket]"]]⟩,
+  ⟨.if_, "", ["?", "tb.occupied(ts)"], [[.var "tb", .var "ts", .call ".occupied" 2 "tb.occupied(ts)"]]⟩,
+  ⟨.then_, "", [], []⟩,
+  ⟨.ret, "", ["false"], [[.num 0]]⟩,
+  ⟨.endIf, "", [], []⟩,
+  ⟨.if_, "", ["?", "!fb.occupied(fs)||hashed_key_only_hash(fb.key(fs))!=from.hv.hash"], [[.var "fb", .var "fs", .call ".occupied" 2 "fb.occupied(fs)", .op "u!", .var "fb", .var "fs", .call ".key" 2 "fb.key(fs)", .call "hashed_key_only_hash" 1 "hashed_key_only_hash(fb.key(fs))", .var "from", .mem "hv" "from.hv", .mem "hash" "from.hv.hash", .op "!=", .op "||"]]⟩,
+  ⟨.then_, "", [], []⟩,
+  ⟨.ret, "", ["false"], [[.num 0]]⟩,
+  ⟨.endIf, "", [], []⟩,
+  ⟨.bucketsMeth, "buckets_", ["setKV", "to.bucket", "ts", "fb.partial(fs)", "fb.movable_key(fs)", "std::move(fb.mapped(fs))"], [[.var "buckets_"], [.var "to", .mem "bucket" "to.bucket"], [.var "ts"], [.var "fb", .var "fs", .call ".partial" 2 "fb.partial(fs)"], [.var "fb", .var "fs", .call ".movable_key" 2 "fb.movable_key(fs)"], [.var "fb", .var "fs", .call ".mapped" 2 "fb.mapped(fs)", .call "std::move" 1 "std::move(fb.mapped(fs))"]]⟩,
+  ⟨.bucketsMeth, "buckets_", ["eraseKV", "from.bucket", "fs"], [[.var "buckets_"], [.var "from", .mem "bucket" "from.bucket"], [.var "fs"]]⟩,
+  ⟨.if_, "", ["==", "depth", "1"], [[.var "depth", .num 1, .op "=="]]⟩,
+  ⟨.then_, "", [], []⟩,
+  ⟨.assign, "", ["b", "std::move(hop_locks)"], [[.var "hop_locks", .call "std::move" 1 "std::move(hop_locks)"]]⟩,
+  ⟨.endIf, "", [], []⟩,
+  ⟨.step, "", ["--depth", "depth"], [[.var "depth", .num 1, .op "-"]]⟩,
+  ⟨.endLoop, "", [], []⟩,
+  ⟨.ret, "", ["true"], [[.num 1]]⟩
+]
+
+
+/-! ## predicates on executions -/
+
+def Run.kinds (r : Run) : List K := r.tr.map (·.k)
+def Run.evs (r : Run) (k : K) : List Ev := r.tr.filter (·.k == k)
+
+def evIdxsFrom (p : Ev → Bool) : Nat → List Ev → List Nat
+  | _, [] => []
+  | n, x :: xs => if p x then n :: evIdxsFrom p (n + 1) xs else evIdxsFrom p (n + 1) xs
+
+/-- positions of the events satisfying `p` -/
+def Run.idxs (r : Run) (p : Ev → Bool) : List Nat := evIdxsFrom p 0 r.tr
+
+/-- every `p` event (if any) precedes every `q` event (if any) -/
+def Run.noneAfter (r : Run) (p q : Ev → Bool) : Bool := (r.idxs p).all fun i => (r.idxs q).all fun j => i < j
+
+def allKnown : List (Option Nat) → Option (List Nat)
+  | [] => some []
+  | none :: _ => none
+  | some v :: t => (allKnown t).map (v :: ·)
+
+def strictAsc : List Nat → Bool
+  | [] => true
+  | a :: t => (match t with | b :: _ => a < b | [] => true) && strictAsc t
+
+def insertSorted (x : Nat) : List Nat → List Nat
+  | [] => [x]
+  | y :: ys => if x < y then x :: y :: ys else if x == y then y :: ys else y :: insertSorted x ys
+
+/-- sorted, duplicates removed -/
+def asSet (l : List Nat) : List Nat := l.foldr insertSorted []
+
+/-- all assignments of the given values to the names -/
+def assigns (vals : List Nat) : List String → List (List (String × Nat))
+  | [] => [[]]
+  | n :: ns => (assigns vals ns).flatMap fun e => vals.map fun v => (n, v) :: e
+
+/-- the locks of the arrays at positions `p .. n-1`, `sz` locks each, in ascending (array, index) order -/
+def locksFrom (p n sz : Nat) : List Nat :=
+  ((List.range n).filter (· ≥ p)).flatMap fun j => (List.range sz).map fun i => 100 * j + i
+
+def isReleaseK (k : K) : Bool := k == .unlock || k == .reset || k == .releaseMgr
+def isReplaceK (k : K) : Bool := k == .bucketsSwap || k == .bucketsAssign || k == .hpSet || k == .streamIn
+def isBookK (k : K) : Bool :=
+  k == .moveBucket || k == .setMigrated || k == .lazySet || k == .rehashWorkers || k == .rehashLock || k == .parallelExec ||
+  k == .lazyDec
+def finished (r : Run) : Bool := r.exit == .fall || r.exit == .ret
+
+/-- the skeleton could be parsed completely (no `switch`, no malformed nesting) -/
+def interpretable (l : Sk) : Bool := !(toStmt l).hasBad
+
 /-! ## rule S — a sound snapshot before the first lock -/
 
-/-- `snapshot_and_lock_two`: the only synchronisation actions are, in this order, the counter load, the hashpower
-load and `lock_two`, all inside the unconditional retry loop; `lock_two` receives the counter that was loaded and
-indices computed from the hashpower that was loaded; it sits in a `try` whose handler for `resize_counter_changed`
-does nothing but `continue` -/
+/-- shape of every execution of `snapshot_and_lock_two`: rounds of (counter load, hashpower load, `lock_two`) -/
+def rounds : List K → Bool
+  | [] => true
+  | [.ret] => true
+  | a :: b :: c :: rest => a == .loadRc && b == .hpGet && c == .lockTwo && rounds rest
+  | _ => false
+
+/-- `snapshot_and_lock_two`, on every execution (the loop is run, `lock_two` may succeed or throw
+`resize_counter_changed`): each round is exactly counter load, then hashpower load, then `lock_two` with the counter
+just loaded; the function returns right after a `lock_two` that did not throw; a throw leads to another complete round
+(never out of the function); and (data flow) the bucket indices passed to `lock_two` are computed from the hashpower
+that was loaded -/
 def chkSnapshot (l : Sk) : Bool :=
-  kinds (vocab l) == [.loadRc, .hpGet, .lockTwo] &&
-  (vocab l).all (fun x => x.r == "") &&
-  allInLoop (fun x => !isMarker x.k) l &&
-  l.any (fun x => x.k == .loop && x.a == ["while", "?", "true"]) &&
-  count (isK .loop) l == 1 &&
-  (match localWithInit l "load_resize_counter()", localWithInit l "hashpower()", l.find? (isK .lockTwo) with
-   | some rc, some hp, some lt =>
+  let rs := runsOf l [("load_resize_counter()", 7), ("hashpower()", 5)] 3 3 4
+  interpretable l &&
+  rs.all (fun r => (r.exit == .ret || r.exit == .cut) && rounds r.kinds &&
+    (r.evs .lockTwo).all (fun e => e.v.head? == some (some 7) && e.a.r == "") &&
+    (r.tr.all fun e => (e.k != .hpGet && e.k != .loadRc) || e.a.r == "") &&
+    (r.exit != .ret || r.kinds.getLast? == some .ret)) &&
+  rs.any (fun r => r.exit == .ret && (r.evs .lockTwo).length == 1) &&
+  rs.any (fun r => r.exit == .ret && (r.evs .lockTwo).length ≥ 2) &&
+  (match localWithInit l "hashpower()", l.find? (isK .lockTwo) with
+   | some hp, some lt =>
      (match lt.a with
-      | [a0, i1, i2, _] =>
-        a0 == rc &&
+      | [_, i1, i2, _] =>
         (match declOf l i1, declOf l i2 with
          | some d1, some d2 =>
            mentions (d1.a.getD 1 "") ("(" ++ hp ++ ",") && mentions (d2.a.getD 1 "") ("(" ++ hp ++ ",")
          | _, _ => false)
       | _ => false)
-   | _, _, _ => false) &&
-  -- the lock_two call is the body of the try, its result is returned, the handler only continues
-  (kinds (between (isK .try_) (isK .catch_) l) == [.lockTwo, .ret]) &&
-  (kinds (between (isK .catch_) (isK .endTry) l) == [.continue_]) &&
-  l.any (fun x => x.k == .catch_ && mentions (x.a.getD 0 "") "resize_counter_changed") &&
-  count (isK .catch_) l == 1
+   | _, _ => false)
 
-/-- **Rule S** (`snapshot_and_lock_two`): resize counter BEFORE hashpower BEFORE `lock_two`, inside the retry loop,
-and a failed validation (`resize_counter_changed`) restarts the loop.  Violated by: swapping the two loads, hoisting a
-load out of the loop, dropping the `try` / replacing `continue` by `break` or `return`, passing a different counter -/
+/-- **Rule S** (`snapshot_and_lock_two`): resize counter BEFORE hashpower BEFORE `lock_two`, in every round of the
+retry loop, and a failed validation (`resize_counter_changed`) starts a new complete round.  Violated by: swapping the
+two loads, hoisting a load out of the loop, dropping the `try` / replacing `continue` by `break` or `return`, passing a
+different counter -/
 theorem S_snapshot_and_lock_two : chkSnapshot snapshot_and_lock_two = true := by decide
 
 /-- non-vacuity: hashpower loaded before the counter is rejected -/
-example : chkSnapshot
-    [A .params "" ["hv"], A .loop "" ["while", "?", "true"], A .hpGet, A .decl "" ["hp", "hashpower()"], A .loadRc,
-     A .decl "" ["rc", "load_resize_counter()"], A .decl "" ["i1", "index_hash(hp,hv.hash)"],
-     A .decl "" ["i2", "alt_index(hp,hv.partial,i1)"], A .try_, A .lockTwo "" ["rc", "i1", "i2", "TABLE_MODE()"],
-     A .ret "" ["lock_two(rc,i1,i2,TABLE_MODE())"], A .catch_ "" ["resize_counter_changed&"], A .continue_, A .endTry,
-     A .endLoop] = false := by decide
+example : chkSnapshot bad_snapshot_swapped_loads = false := by decide
 
-/-- `run_cuckoo`: the hashpower and the counter are loaded while the two buckets are still locked (validated hold),
-before `b.unlock()`; the search and the move come after the unlock, receive exactly these two values, and run inside
-a `try` whose `resize_counter_changed` handler reports `failure_under_expansion` -/
+/-- `run_cuckoo`, on every execution: the hashpower and the counter are loaded (in either order) while the two buckets
+are still locked, then `b.unlock()`, and only then the search / move, which receive exactly these two values; no
+`resize_counter_changed` escapes; (structure) the handler reports `failure_under_expansion` -/
 def chkRunCuckoo (l : Sk) : Bool :=
   let b := (params l).getD 0 "?"
-  if kinds (vocab l) == [.hpGet, .loadRc, .unlock, .pathSearch, .pathMove] ||
-     kinds (vocab l) == [.loadRc, .hpGet, .unlock, .pathSearch, .pathMove] then
-    (l.any (eqAct .unlock b [])) &&
-    unconditional (fun x => x.k == .hpGet || x.k == .loadRc || x.k == .unlock) l &&
-    (l.filter (fun x => x.k == .hpGet || x.k == .loadRc)).all (fun x => x.r == "") &&
-    (match localWithInit l "load_resize_counter()", localWithInit l "hashpower()",
-           l.find? (isK .pathSearch), l.find? (isK .pathMove) with
-     | some rc, some hp, some ps, some pm =>
-       ((ps.a.drop 1).take 2 == [hp, rc]) && ((pm.a.drop 1).take 1 == [rc]) && pm.a.getLast? == some b
-     | _, _, _, _ => false) &&
-    before (isK .try_) (isK .pathSearch) l &&
-    before (isK .pathMove) (isK .catch_) l &&
-    (between (isK .catch_) (isK .endTry) l).map (fun x => (x.k, x.a)) == [(.ret, ["failure_under_expansion"])] &&
-    l.any (fun x => x.k == .catch_ && mentions (x.a.getD 0 "") "resize_counter_changed")
-  else false
+  let rs := runsOf l [("load_resize_counter()", 7), ("hashpower()", 5), (b, 55)] 3 3 4
+  interpretable l && b != "" && !rs.isEmpty &&
+  rs.all (fun r =>
+    (r.exit == .ret || r.exit == .cut) &&
+    (let ks := r.kinds.take 3
+     ks == [.hpGet, .loadRc, .unlock] || ks == [.loadRc, .hpGet, .unlock]) &&
+    ((r.tr.take 3).all fun e => if e.k == .unlock then e.r == some 55 else e.a.r == "") &&
+    ((r.tr.drop 3).all fun e =>
+      (e.k == .pathSearch && e.v.take 2 == [some 5, some 7]) ||
+      (e.k == .pathMove && e.v.head? == some (some 7) && e.v.getLast? == some (some 55)) || e.k == .ret)) &&
+  rs.any (fun r => r.tr.any (·.k == .pathMove)) &&
+  (between (isK .catch_) (isK .endTry) l).map (fun x => (x.k, x.a)) == [(.ret, ["failure_under_expansion"])] &&
+  l.any (fun x => x.k == .catch_ && mentions (x.a.getD 0 "") "resize_counter_changed")
 
 /-- **Rule S** (`run_cuckoo`): both loads precede `b.unlock()`, the cuckoo path functions get that snapshot, a failed
 validation anywhere below is reported as `failure_under_expansion`.  Violated by: moving a load after `b.unlock()`,
 dropping the unlock, swallowing `resize_counter_changed` -/
 theorem S_run_cuckoo : chkRunCuckoo run_cuckoo = true := by decide
 
-example : chkRunCuckoo
-    [A .params "" ["b", "ib", "is"], A .hpGet, A .decl "" ["hp", "hashpower()"], A .unlock "b", A .loadRc,
-     A .decl "" ["rc", "load_resize_counter()"], A .try_, A .pathSearch "" ["T", "hp", "rc", "p", "b.i1", "b.i2"],
-     A .pathMove "" ["T", "rc", "p", "d", "b"], A .catch_ "" ["resize_counter_changed&"],
-     A .ret "" ["failure_under_expansion"], A .endTry, A .ret "" ["ok"]] = false := by decide
+example : chkRunCuckoo bad_run_cuckoo_late_load = false := by decide
 
-/-- `lock_one/two/three`: the current lock array is read exactly once, before the first `lock()`, and every lock taken
-is an element of that array -/
-def chkLocksFromSnapshot (l : Sk) : Bool :=
-  count (isK .getLocks) l == 1 &&
-  before (isK .getLocks) (isK .lock) l &&
-  unconditional (isK .getLocks) l &&
-  (match localWithInit l "get_current_locks()" with
-   | some locks => (lockActs l).all fun x => (stripeOf l x).map (·.1) == some locks
-   | none => false)
+/-! ### `lock_one`, `lock_two`, `lock_three`: all executions on all small bucket indices -/
+
+/-- the bucket-index parameters (everything but the counter and the unnamed mode tag) -/
+def idxParams (l : Sk) : List String := ((params l).drop 1).filter (· != "")
+
+/-- inputs: the counter parameter is 7, every bucket index ranges over 0..2 (`lock_ind` is the identity of the
+machine, so equal indices = same stripe, different indices = different stripes: all coincidence patterns occur) -/
+def lockEnvs (l : Sk) : List (List (String × Nat)) :=
+  (assigns [0, 1, 2] (idxParams l)).map fun e => ((params l).getD 0 "?", 7) :: e
+
+/-- on every input there is exactly one execution that returns (it satisfies `P`) and the others leave by the
+exception of the validation (they satisfy `Q`) -/
+def lockRuns (l : Sk) (P : List (String × Nat) → Run → Bool) (Q : Run → Bool) : Bool :=
+  interpretable l && !(idxParams l).isEmpty && (params l).getD 0 "" != "" &&
+  (lockEnvs l).all fun env =>
+    let rs := runsOf l env
+    (rs.filter (·.exit == .ret)).length == 1 &&
+    rs.all fun r => if r.exit == .ret then P env r else r.exit == .thrw && Q r
+
+/-- the current lock array is read once, before the first `lock()`, and every lock taken is one of that array (the
+last of `all_locks_`, position 2 of 3 here) -/
+def pSnapshotLocks (r : Run) : Bool :=
+  (r.evs .getLocks).length == 1 && !(r.evs .lock).isEmpty &&
+  r.noneAfter (·.k == .getLocks) (·.k == .lock) &&
+  (r.evs .lock).all fun e => match e.r with | some c => c / 100 == 2 | none => false
 
 /-- **Rule S** (`lock_one`, `lock_two`, `lock_three`): `get_current_locks()` precedes the first `.lock()` and all
 locks of the episode are taken in the array that was read.  Violated by: reading the array after the first lock,
 re-reading it between two locks, locking through another array -/
 theorem S_locks_from_snapshot :
-    chkLocksFromSnapshot lock_one = true ∧ chkLocksFromSnapshot lock_two = true ∧
-    chkLocksFromSnapshot lock_three = true := by decide
+    lockRuns lock_one (fun _ r => pSnapshotLocks r) pSnapshotLocks = true ∧
+    lockRuns lock_two (fun _ r => pSnapshotLocks r) pSnapshotLocks = true ∧
+    lockRuns lock_three (fun _ r => pSnapshotLocks r) pSnapshotLocks = true := by decide
 
-example : chkLocksFromSnapshot
-    [A .params "" ["rc", "i", ""], A .decl "" ["l", "lock_ind(i)"], A .lock "all_locks_.back()[l]" ["all_locks_.back()", "l"],
-     A .getLocks, A .decl "" ["locks", "get_current_locks()"], A .checkRc "" ["rc", "locks[l]"]] = false := by decide
+example : lockRuns bad_lock_two_reread_locks (fun _ r => pSnapshotLocks r) pSnapshotLocks = false := by decide
 
 /-! ## rule V — validate right after the first lock -/
 
-def isAfterFirstLockForbidden (x : Act) : Bool :=
-  x.k == .lock || x.k == .rehashLock || x.k == .bucketAt || x.k == .bucketsMeth || x.k == .moveBucket ||
-  x.k == .isMigrated || x.k == .setMigrated
+/-- the event after the first `lock()` is `check_resize_counter(<counter parameter>, <that very lock>)`, it is the only
+validation, and nothing is touched before the first lock -/
+def pValidate (r : Run) : Bool :=
+  (match r.tr.dropWhile (·.k != .lock) with
+   | lk :: ck :: rest =>
+     ck.k == .checkRc && lk.r.isSome && ck.v == [some 7, lk.r] && ck.a.r == "" && rest.all (·.k != .checkRc)
+   | _ => false) &&
+  ((r.tr.takeWhile (·.k != .lock)).all fun e => e.k == .getLocks || e.k == .locksBack)
 
-/-- the first `lock()` is unconditional and is immediately followed (declarations aside) by an unconditional
-`check_resize_counter(<counter parameter>, <that very lock>)`; no further lock, lazy rehash or bucket access comes in
-between -/
-def chkValidate (l : Sk) : Bool :=
-  match (lockActs l).head?, nextAfterFirst (isK .lock) l with
-  | some first, some nxt =>
-    nxt.k == .checkRc && nxt.r == "" && nxt.a == [(params l).getD 0 "?", first.r] &&
-    (params l).getD 0 "" != "" &&
-    count (isK .checkRc) l == 1 &&
-    unconditional (fun x => x.k == .checkRc) l &&
-    (((withDepth 0 l).find? (fun p => p.2.k == .lock)).map (·.1) == some 0) &&
-    noneAfter (isK .checkRc) (fun x => isAfterFirstLockForbidden x && !(x.k == .lock && x.r == first.r)) l &&
-    ((between (isK .lock) (isK .checkRc) l).all fun x => x.k == .decl)
-  | _, _ => false
+/-- the validation failed: exactly one lock had been taken and nothing at all was done after the check -/
+def qValidate (r : Run) : Bool :=
+  pValidate r && (r.evs .lock).length == 1 && r.kinds.getLast? == some .checkRc
 
 /-- **Rule V** (`lock_one`, `lock_two`, `lock_three`): after the first lock the next action is the validation, before
 any further `.lock()`, `rehash_lock` or bucket access.  Violated by: moving `check_resize_counter` after the second
 lock, dropping it, making it conditional, validating another lock than the one just taken -/
 theorem V_validate_after_first_lock :
-    chkValidate lock_one = true ∧ chkValidate lock_two = true ∧ chkValidate lock_three = true := by decide
+    lockRuns lock_one (fun _ r => pValidate r) qValidate = true ∧
+    lockRuns lock_two (fun _ r => pValidate r) qValidate = true ∧
+    lockRuns lock_three (fun _ r => pValidate r) qValidate = true := by decide
 
 /-- non-vacuity: `lock_two` with the validation moved after the second lock -/
-example : chkValidate
-    [A .params "" ["rc", "i1", "i2", ""], A .decl "" ["l1", "lock_ind(i1)"], A .decl "" ["l2", "lock_ind(i2)"],
-     A .getLocks, A .decl "" ["locks", "get_current_locks()"], A .lock "locks[l1]" ["locks", "l1"],
-     A .if_ "" ["!=", "l2", "l1"], A .then_, A .lock "locks[l2]" ["locks", "l2"], A .endIf,
-     A .checkRc "" ["rc", "locks[l1]"], A .rehashLock "" ["kIsLazy", "l1"], A .rehashLock "" ["kIsLazy", "l2"]]
-    = false := by decide
+example : lockRuns bad_lock_two_check_after_second (fun _ r => pValidate r) qValidate = false := by decide
 
-/-- every stripe that is locked gets an unconditional lazy `rehash_lock<kIsLazy>(stripe)` after the last lock (hence
-after the validation), and nothing else is rehashed -/
-def chkRehashEvery (l : Sk) : Bool :=
-  let ls := lockedIdxs l
-  let rs := (l.filter (isK .rehashLock)).map (·.a)
-  ls.length == (lockActs l).length && !ls.isEmpty &&
-  rs == ls.map (fun i => ["kIsLazy", i]) &&
-  unconditional (isK .rehashLock) l &&
-  allBefore (isK .lock) (isK .rehashLock) l &&
-  allBefore (isK .checkRc) (isK .rehashLock) l
+/-- the set of stripes passed to `rehash_lock<kIsLazy>` is the set of stripes locked, and every such call comes after
+the last lock and after the validation -/
+def pRehashEvery (r : Run) : Bool :=
+  let rh := r.evs .rehashLock
+  (match allKnown ((r.evs .lock).map (·.r)), allKnown (rh.map fun e => e.v.getD 0 none) with
+   | some cs, some is => !cs.isEmpty && asSet is == asSet (cs.map (· % 100))
+   | _, _ => false) &&
+  rh.all (fun e => e.a.a.head? == some "kIsLazy" && e.a.r == "") &&
+  r.noneAfter (·.k == .lock) (·.k == .rehashLock) && r.noneAfter (·.k == .checkRc) (·.k == .rehashLock)
 
 /-- **Rule V / lazy migration** (`lock_one`, `lock_two`, `lock_three`): every acquired stripe is migrated
-(`rehash_lock<kIsLazy>`) before the buckets are handed to the caller, and only after the validation.  Violated by:
-dropping `rehash_lock(l2)`, rehashing a stripe that is not locked, rehashing before `check_resize_counter` -/
+(`rehash_lock<kIsLazy>`) before the buckets are handed to the caller, and only after the validation; when the
+validation fails nothing is rehashed.  Violated by: dropping `rehash_lock(l2)`, rehashing a stripe that is not
+locked, rehashing before `check_resize_counter` -/
 theorem V_every_stripe_rehashed :
-    chkRehashEvery lock_one = true ∧ chkRehashEvery lock_two = true ∧ chkRehashEvery lock_three = true := by decide
+    lockRuns lock_one (fun _ r => pRehashEvery r) (fun r => (r.evs .rehashLock).isEmpty) = true ∧
+    lockRuns lock_two (fun _ r => pRehashEvery r) (fun r => (r.evs .rehashLock).isEmpty) = true ∧
+    lockRuns lock_three (fun _ r => pRehashEvery r) (fun r => (r.evs .rehashLock).isEmpty) = true := by decide
 
-example : chkRehashEvery
-    [A .params "" ["rc", "i1", "i2", ""], A .getLocks, A .decl "" ["locks", "get_current_locks()"],
-     A .lock "locks[l1]" ["locks", "l1"], A .checkRc "" ["rc", "locks[l1]"], A .if_ "" ["!=", "l2", "l1"], A .then_,
-     A .lock "locks[l2]" ["locks", "l2"], A .endIf, A .rehashLock "" ["kIsLazy", "l1"]] = false := by decide
+example : lockRuns bad_lock_two_no_rehash_l2 (fun _ r => pRehashEvery r) (fun r => (r.evs .rehashLock).isEmpty) = false := by
+  decide
 
-/-- `check_resize_counter(rc, lock)` is exactly: `if (load_resize_counter() != rc) { lock.unlock(); throw resize_counter_changed(); }` -/
+/-- `check_resize_counter(rc, lock)`, on the four combinations (snapshot, current counter): equal ⇒ the counter is
+loaded and nothing else happens; different ⇒ the counter is loaded, the lock passed in is released, and only then
+`resize_counter_changed` is thrown -/
 def chkCheckRc (l : Sk) : Bool :=
-  match l with
-  | [⟨.params, _, [rc, lk]⟩, ⟨.if_, _, [op, x, y]⟩, ⟨.loadRc, r, []⟩, ⟨.then_, _, _⟩, ⟨.unlock, u, _⟩,
-     ⟨.throw_, _, [t]⟩, ⟨.endIf, _, _⟩] =>
-    op == "!=" && ((x == "load_resize_counter()" && y == rc) || (y == "load_resize_counter()" && x == rc)) &&
-    r == "" && u == lk && rc != "" && lk != "" && mentions t "resize_counter_changed"
+  match params l with
+  | [rc, lk] =>
+    rc != "" && lk != "" && interpretable l &&
+    [0, 1].all fun a => [0, 1].all fun b =>
+      match runsOf l [(rc, a), (lk, 205), ("load_resize_counter()", b)] with
+      | [r] =>
+        if a == b then finished r && r.kinds.filter (· != .ret) == [.loadRc]
+        else r.exit == .thrw && r.kinds == [.loadRc, .unlock, .throw_] &&
+             (r.evs .unlock).map (·.r) == [some 205] &&
+             (r.evs .throw_).all (fun e => mentions (e.a.a.getD 0 "") "resize_counter_changed")
+      | _ => false
   | _ => false
 
 /-- **Rule V** (`check_resize_counter`): load the counter, compare with the snapshot, on mismatch release the lock
@@ -325,159 +1476,82 @@ just taken and only then throw.  Violated by: throwing without unlocking, unlock
 `==`, not re-loading the counter -/
 theorem V_check_resize_counter : chkCheckRc check_resize_counter = true := by decide
 
-example : chkCheckRc
-    [A .params "" ["rc", "lock"], A .if_ "" ["!=", "load_resize_counter()", "rc"], A .loadRc, A .then_,
-     A .throw_ "" ["resize_counter_changed()"], A .endIf] = false := by decide
+example : chkCheckRc bad_check_no_unlock = false := by decide
+
+/-- the early-return form (`if (load == rc) return; unlock; throw`) is the same thing -/
+example : chkCheckRc alt_check_early_return = true := by decide
 
 /-! ## rule A — ascending order, no double acquisition -/
 
-/-- a guarded swap `if (a op b) std::swap(s, t);` -/
-structure Cex where
-  op : String
-  a : String
-  b : String
-  s : String
-  t : String
+/-- the locks are taken in strictly ascending order (so none twice) and their stripes are exactly the stripes of the
+bucket indices passed in; nothing is unlocked -/
+def pAscending (env : List (String × Nat)) (r : Run) : Bool :=
+  (match allKnown ((r.evs .lock).map (·.r)) with
+   | some cs => strictAsc cs && cs.map (· % 100) == asSet ((env.drop 1).map (·.2))
+   | none => false) &&
+  r.tr.all (fun e => !isReleaseK e.k)
 
-/-- the guarded swaps of a skeleton, in order -/
-def cexOf : Sk → List Cex
-  | [] => []
-  | x :: xs =>
-    match x, xs with
-    | ⟨.if_, _, [op, a, b]⟩, ⟨.then_, _, _⟩ :: ⟨.swapVals, _, [s, t]⟩ :: ⟨.endIf, _, _⟩ :: _ =>
-      ⟨op, a, b, s, t⟩ :: cexOf xs
-    | _, _ => cexOf xs
-
-abbrev Env := List (String × Nat)
-def Env.get (e : Env) (n : String) : Nat := (e.lookup n).getD 99
-def Env.set (e : Env) (n : String) (v : Nat) : Env := e.map fun p => if p.1 == n then (p.1, v) else p
-
-def cmpHolds (op : String) (x y : Nat) : Bool :=
-  if op == "<" then x < y else if op == ">" then x > y else if op == "<=" then x ≤ y else if op == ">=" then x ≥ y
-  else false
-
-def runCex (e : Env) : List Cex → Env
-  | [] => e
-  | c :: cs =>
-    if cmpHolds c.op (e.get c.a) (e.get c.b) then
-      let vs := e.get c.s
-      let vt := e.get c.t
-      runCex ((e.set c.s vt).set c.t vs) cs
-    else runCex e cs
-
-/-- all assignments of values 0..2 to the names -/
-def assigns : List String → List Env
-  | [] => [[]]
-  | n :: ns => (assigns ns).flatMap fun e => [0, 1, 2].map fun v => (n, v) :: e
-
-def sortedIn (e : Env) : List String → Bool
-  | [] => true
-  | a :: t => (match t with | b :: _ => e.get a ≤ e.get b | [] => true) && sortedIn e t
-
-/-- a lock guarded by `if (x != y)` : the window `if_ [!=, x, y] ; then_ ; lock ..[x] ; endIf` -/
-def guardedLock (cur prev : String) (l : Sk) : Bool :=
-  hasSeq [fun x => x.k == .if_ && (x.a == ["!=", cur, prev] || x.a == ["!=", prev, cur]), isK .then_,
-          fun x => x.k == .lock && x.a.getD 1 "" == cur, isK .endIf] l
-
-def guardedFrom (prev : String) (l : Sk) : List String → Bool
-  | [] => true
-  | c :: cs => guardedLock c prev l && guardedFrom c l cs
-
-/-- the stripe indices are locked in ascending order whatever the bucket indices are: simulating the guarded swaps
-that precede the first lock on every assignment of values sorts the names in the order in which they are locked; all
-swaps are guarded and precede the first lock; each lock after the first is skipped when its stripe equals the previous
-one (so no stripe is locked twice, given the order) -/
-def chkAscending (n : Nat) (l : Sk) : Bool :=
-  let names := lockedIdxs l
-  let pre := l.takeWhile (fun x => x.k != .lock)
-  let ops := cexOf pre
-  names.length == n && (lockActs l).length == n && names.eraseDups.length == n &&
-  count (isK .swapVals) l == ops.length &&
-  ((assigns names).all fun e => sortedIn (runCex e ops) names) &&
-  (match names with
-   | [] => false
-   | first :: rest => guardedFrom first l rest) &&
-  -- apart from the guards nothing conditional: every lock is at depth 0 (the first) or 1 (guarded)
-  ((withDepth 0 l).all fun p => p.2.k != .lock || p.1 ≤ 1) &&
-  count (isK .loop) l == 0 && count (isK .unlock) l == 0
-
-/-- **Rule A** (`lock_two`): the two stripe indices are sorted ascending by a guarded swap before the first lock and
-the second lock is skipped when both buckets share a stripe.  Violated by: descending order (`if (l1 < l2) swap`),
-dropping the swap, dropping the `l2 != l1` guard -/
-theorem A_lock_two_ascending : chkAscending 2 lock_two = true := by decide
-
-/-- the stripes really are those of the two bucket indices passed in -/
-theorem A_lock_two_indices :
-    (match params lock_two, lockedIdxs lock_two with
-     | [_, i1, i2, _], [a, b] =>
-       (declaredAs lock_two a ("lock_ind(" ++ i1 ++ ")") && declaredAs lock_two b ("lock_ind(" ++ i2 ++ ")")) ||
-       (declaredAs lock_two a ("lock_ind(" ++ i2 ++ ")") && declaredAs lock_two b ("lock_ind(" ++ i1 ++ ")"))
-     | _, _ => false) = true := by decide
+/-- **Rule A** (`lock_one`, `lock_two`): whatever the bucket indices, the stripes are locked in ascending order, each
+once (the second lock is skipped when both buckets share a stripe), and they are the stripes of the given buckets.
+Violated by: descending order (`if (l1 < l2) swap`), dropping the swap, dropping the `l2 != l1` guard, locking the
+stripe of another bucket -/
+theorem A_lock_two_ascending :
+    lockRuns lock_two pAscending (fun _ => true) = true ∧ lockRuns lock_one pAscending (fun _ => true) = true := by
+  decide
 
 /-- non-vacuity: descending order is rejected -/
-example : chkAscending 2
-    [A .params "" ["rc", "i1", "i2", ""], A .decl "" ["l1", "lock_ind(i1)"], A .decl "" ["l2", "lock_ind(i2)"],
-     A .if_ "" ["<", "l1", "l2"], A .then_, A .swapVals "" ["l1", "l2"], A .endIf,
-     A .getLocks, A .decl "" ["locks", "get_current_locks()"], A .lock "locks[l1]" ["locks", "l1"],
-     A .checkRc "" ["rc", "locks[l1]"], A .if_ "" ["!=", "l2", "l1"], A .then_, A .lock "locks[l2]" ["locks", "l2"],
-     A .endIf] = false := by decide
+example : lockRuns bad_lock_two_descending pAscending (fun _ => true) = false := by decide
 
-/-- non-vacuity: a missing duplicate-stripe guard is rejected -/
-example : chkAscending 2
-    [A .params "" ["rc", "i1", "i2", ""], A .decl "" ["l1", "lock_ind(i1)"], A .decl "" ["l2", "lock_ind(i2)"],
-     A .if_ "" ["<", "l2", "l1"], A .then_, A .swapVals "" ["l1", "l2"], A .endIf,
-     A .getLocks, A .decl "" ["locks", "get_current_locks()"], A .lock "locks[l1]" ["locks", "l1"],
-     A .checkRc "" ["rc", "locks[l1]"], A .lock "locks[l2]" ["locks", "l2"]] = false := by decide
+/-- non-vacuity: a missing duplicate-stripe guard is rejected (the same stripe would be locked twice: self-deadlock) -/
+example : lockRuns bad_lock_two_no_dup_guard pAscending (fun _ => true) = false := by decide
 
-/-- **Rule A** (`lock_three`): the three guarded swaps form a sorting network for the three stripe indices, the locks
-are taken in the sorted order, each lock after the first is skipped when equal to its predecessor.  Violated by:
-removing or reordering a compare-exchange so that some input order is not sorted, locking `l[2]` before `l[1]`,
-dropping a duplicate guard -/
-theorem A_lock_three_ascending : chkAscending 3 lock_three = true := by decide
+/-- ordering by `std::min` / `std::max` instead of a conditional swap is accepted -/
+example : lockRuns alt_lock_two_minmax pAscending (fun _ => true) = true ∧
+    lockRuns alt_lock_two_minmax (fun _ r => pValidate r) qValidate = true ∧
+    lockRuns alt_lock_two_minmax (fun _ r => pRehashEvery r) (fun r => (r.evs .rehashLock).isEmpty) = true := by decide
 
-theorem A_lock_three_indices :
-    (match params lock_three, declOf lock_three (String.ofList (((lockedIdxs lock_three).head?.getD "").toList.takeWhile (· != '['))) with
-     | [_, i1, i2, i3, _], some d =>
-       d.a.getD 1 "" == "{{lock_ind(" ++ i1 ++ "),lock_ind(" ++ i2 ++ "),lock_ind(" ++ i3 ++ ")}}" &&
-       (let n := d.a.getD 0 ""; (lockedIdxs lock_three) == [n ++ "[0]", n ++ "[1]", n ++ "[2]"])
-     | _, _ => false) = true := by decide
+/-- **Rule A** (`lock_three`): on all 27 index triples the three stripes are locked in ascending order, each once, and
+they are the stripes of the three buckets — i.e. the compare-exchanges before the first lock do sort, and the
+duplicate guards are right.  Violated by: removing or reordering a compare-exchange so that some input order is not
+sorted, locking `l[2]` before `l[1]`, dropping a duplicate guard -/
+theorem A_lock_three_ascending : lockRuns lock_three pAscending (fun _ => true) = true := by decide
 
 /-- non-vacuity: a network with the last compare-exchange missing does not sort -/
-example : chkAscending 3
-    [A .params "" ["rc", "i1", "i2", "i3", ""], A .decl "" ["l", "{{lock_ind(i1),lock_ind(i2),lock_ind(i3)}}"],
-     A .if_ "" ["<", "l[2]", "l[1]"], A .then_, A .swapVals "" ["l[2]", "l[1]"], A .endIf,
-     A .if_ "" ["<", "l[2]", "l[0]"], A .then_, A .swapVals "" ["l[2]", "l[0]"], A .endIf,
-     A .getLocks, A .decl "" ["locks", "get_current_locks()"], A .lock "locks[l[0]]" ["locks", "l[0]"],
-     A .checkRc "" ["rc", "locks[l[0]]"],
-     A .if_ "" ["!=", "l[1]", "l[0]"], A .then_, A .lock "locks[l[1]]" ["locks", "l[1]"], A .endIf,
-     A .if_ "" ["!=", "l[2]", "l[1]"], A .then_, A .lock "locks[l[2]]" ["locks", "l[2]"], A .endIf] = false := by decide
+example : lockRuns bad_lock_three_network pAscending (fun _ => true) = false := by decide
 
-/-- where `lock_all` may start: at the current (last) lock array — or at the very first one, which only takes more
-locks, still in ascending (array, index) order (harmless for the protocol, see the self-test notes) -/
-def lockAllStarts : List String := ["std::prev(all_locks_.end())", "all_locks_.begin()"]
+/-- three named locals sorted by the same network instead of a `std::array` are accepted -/
+example : lockRuns alt_lock_three_locals pAscending (fun _ => true) = true ∧
+    lockRuns alt_lock_three_locals (fun _ r => pValidate r) qValidate = true := by decide
 
-/-- `lock_all(normal_mode)` : `first = <start>; cur = first; while (cur != all_locks_.end()) { locks = *cur; for (lock : locks) lock.lock(); ++cur; } return AllLocksManager(this, AllUnlocker{first});` -/
+/-- `lock_all(normal_mode)`, for several shapes of `all_locks_` (n arrays of sz locks): one execution; it locks, in
+ascending order and each once, exactly the locks of the arrays from some position `p ≤ n-1` up to the end (the whole
+current array included), does nothing else, and hands that very position `p` to `AllUnlocker`.  (`p = n-1` in the
+source; starting earlier — `all_locks_.begin()` — only takes more locks in the same order and is accepted.) -/
 def chkLockAll (l : Sk) : Bool :=
-  match l with
-  | [⟨.params, _, _⟩, ⟨.decl, _, [f, start]⟩, ⟨.decl, _, [c, f']⟩, ⟨.loop, _, ["while", "!=", c', e]⟩,
-     ⟨.decl, _, [ls, deref]⟩, ⟨.loop, _, ["range", lk, ls']⟩, ⟨.lock, lk', []⟩, ⟨.endLoop, _, _⟩, ⟨.step, _, [st]⟩,
-     ⟨.endLoop, _, _⟩, ⟨.ret, _, [r]⟩] =>
-    lockAllStarts.contains start && f' == f && c' == c && e == "all_locks_.end()" && deref == "*" ++ c &&
-    ls' == ls && lk' == lk && (st == "++" ++ c || st == c ++ "++") &&
-    r == "AllLocksManager(this,AllUnlocker{" ++ f ++ "})"
-  | _ => false
+  interpretable l &&
+  [(3, 2), (1, 3), (2, 1)].all fun (n, sz) =>
+    match runsOf l [] n sz with
+    | [r] =>
+      r.exit == .ret &&
+      r.tr.all (fun e => e.k == .lock || e.k == .ret || e.k == .getLocks || e.k == .locksBack) &&
+      (match allKnown ((r.evs .lock).map (·.r)), r.tr.getLast? with
+       | some (c :: cs), some last =>
+         let p := c / 100
+         last.k == .ret && p < n && (c :: cs) == locksFrom p n sz && last.r == some p
+       | _, _ => false)
+    | _ => false
 
-/-- **Rule A** (`lock_all`): starts at the current lock array, walks to `all_locks_.end()`, locks every lock of every
-array on the way in ascending order, releases nothing, and hands the *same* starting point to `AllUnlocker`.
-Violated by: starting at `end()` / `std::next(..)`, skipping the `++`, an `unlock` / `break` inside the walk, giving
-`AllUnlocker` another iterator than the one the walk started from -/
+/-- **Rule A** (`lock_all`): starts at (or before) the current lock array, walks to `all_locks_.end()`, locks every
+lock of every array on the way in ascending order, releases nothing, and hands the *same* starting point to
+`AllUnlocker`.  Violated by: starting at `end()` / `std::next(..)`, skipping the `++`, an `unlock` / `break` inside
+the walk, giving `AllUnlocker` another iterator than the one the walk started from -/
 theorem A_lock_all_walk : chkLockAll lock_all = true := by decide
 
-example : chkLockAll
-    [A .params "" [""], A .decl "" ["first_locked", "std::prev(all_locks_.end())"], A .decl "" ["cur", "first_locked"],
-     A .loop "" ["while", "!=", "cur", "all_locks_.end()"], A .decl "" ["locks", "*cur"],
-     A .loop "" ["range", "lock", "locks"], A .lock "lock", A .endLoop, A .step "" ["++cur"], A .endLoop,
-     A .ret "" ["AllLocksManager(this,AllUnlocker{cur})"]] = false := by decide
+example : chkLockAll bad_lock_all_from_end = false := by decide
+example : chkLockAll bad_lock_all_other_iter = false := by decide
+
+/-- a `for` loop instead of the `while` is the same walk -/
+example : chkLockAll alt_lock_all_for = true := by decide
 
 /-- the `locked_table_mode` overloads take no lock and touch nothing -/
 theorem A_locked_table_mode_overloads_are_noops :
@@ -486,50 +1560,45 @@ theorem A_locked_table_mode_overloads_are_noops :
 
 /-! ## rule R — resizes: own the table, replace, bump the counter, only then release -/
 
-/-- common shape of `cuckoo_fast_double` / `cuckoo_expand_simple` from `lock_all` on -/
+/-- `cuckoo_fast_double` / `cuckoo_expand_simple`, on every path (all conditions both ways):
+* nothing is released by hand, `all_locks_` is not touched directly, the counter is only advanced by
+  `resize_counter_.fetch_add(1, release)`;
+* a path that changes the lock array or the bucket array / hashpower starts with `lock_all(TABLE_MODE())`, calls
+  `maybe_resize_locks` once, before the first replacement, bumps the counter exactly once, after the last replacement
+  and after all migration bookkeeping, and returns immediately after the bump;
+* a path that changes nothing does not bump the counter;
+* there is a path that replaces the bucket array; and (structure) the result of `lock_all` is kept in a named local,
+  not a temporary that dies at once -/
 def chkResize (l : Sk) : Bool :=
-  -- `lock_all(TABLE_MODE())`, unconditional, result kept in a named local (not a temporary that dies at once)
-  count (isK .lockAll) l == 1 && unconditional (isK .lockAll) l &&
+  let rs := runsOf l []
+  interpretable l && rs.all finished && rs.any (fun r => r.tr.any (fun e => isReplaceK e.k)) &&
   hasSeq [fun x => x.k == .lockAll && x.r == "" && x.a == ["TABLE_MODE()"],
           fun x => x.k == .decl && x.a.getD 1 "" == "lock_all(TABLE_MODE())"] l &&
-  -- nothing of the vocabulary after lock_all comes before it
-  (match firstIdx (isK .lockAll) l with
-   | some i => ((l.drop (i + 1)).any (isK .lockAll)) == false
-   | none => false) &&
-  -- lock array grown before the bucket array / hashpower is replaced; both unconditional
-  count (isK .maybeResizeLocks) l == 1 && unconditional (isK .maybeResizeLocks) l &&
-  allBefore (isK .lockAll) (isK .maybeResizeLocks) l &&
-  allBefore (isK .maybeResizeLocks) isReplace l && unconditional isReplace l &&
-  -- exactly one unconditional counter bump, after every replacement and all migration bookkeeping
-  count (fun x => x.k == .bumpRc || x.k == .bumpRcCall) l == 1 &&
-  l.any (fun x => x.k == .bumpRc && x.r == "resize_counter_" && x.a == ["1", "std::memory_order_release"]) &&
-  unconditional (isK .bumpRc) l &&
-  allBefore isReplace (isK .bumpRc) l && noneAfter isBookkeeping (isK .bumpRc) l &&
-  noneAfter (isK .maybeResizeLocks) (isK .bumpRc) l &&
-  -- nothing is released by hand: the locks go with the manager when the function returns
-  count isRelease l == 0 && count (isK .emplaceBack) l == 0 && count (isK .rcOther) l == 0 &&
-  -- returns after lock_all: either before anything was changed, or after the bump; the function ends with the latter
-  (match firstIdx (isK .lockAll) l, firstIdx (fun x => isReplace x || x.k == .maybeResizeLocks) l, firstIdx (isK .bumpRc) l with
-   | some la, some ch, some bp =>
-     ((idxs (isK .ret) l).all fun j => j < la || j < ch || bp < j) &&
-     ((idxs (fun x => x.k == .ret && x.a == ["ok"]) l).all fun j => bp < j) &&
-     (l.getLast?.map (fun x => x.k == .ret && x.a == ["ok"]) == some true) &&
-     (l[bp + 1]?.map (·.k) == some .ret)
-   | _, _, _ => false) &&
-  count (fun x => x.k == .throw_ || x.k == .break_ || x.k == .continue_) l == 0
+  rs.all fun r =>
+    r.tr.all (fun e => !isReleaseK e.k && e.k != .emplaceBack && e.k != .allLocksOther && e.k != .rcOther &&
+                       e.k != .bumpRcCall && e.k != .throw_) &&
+    (r.evs .bumpRc).all (fun e => e.a.r == "resize_counter_" && e.a.a == ["1", "std::memory_order_release"]) &&
+    (r.evs .lockAll).length ≤ 1 &&
+    (if r.tr.any (fun e => isReplaceK e.k || e.k == .maybeResizeLocks) then
+      (r.tr.head?.map (·.k) == some .lockAll) &&
+      (r.evs .maybeResizeLocks).length == 1 && r.tr.any (fun e => isReplaceK e.k) &&
+      r.noneAfter (·.k == .maybeResizeLocks) (fun e => isReplaceK e.k) &&
+      (r.evs .bumpRc).length == 1 &&
+      r.noneAfter (fun e => isReplaceK e.k || isBookK e.k || e.k == .maybeResizeLocks) (·.k == .bumpRc) &&
+      ((r.tr.dropWhile (·.k != .bumpRc)).map (·.k) == [.bumpRc, .ret])
+    else (r.evs .bumpRc).isEmpty)
 
-/-- `cuckoo_fast_double`: before `lock_all` there is only the early delegation to `cuckoo_expand_simple` (returned at
-once, inside an `if`) -/
+/-- `cuckoo_fast_double`: a path that does not start with `lock_all` is the early delegation to
+`cuckoo_expand_simple`, returned at once -/
 def chkFastDoublePrefix (l : Sk) : Bool :=
-  let pre := l.takeWhile (fun x => x.k != .lockAll)
-  kinds (vocab pre) == [.expandSimple] &&
-  hasSeq [isK .if_, isK .then_, isK .expandSimple, isK .ret, isK .endIf] pre
+  (runsOf l []).all fun r =>
+    r.tr.head?.map (·.k) == some .lockAll || r.kinds == [.expandSimple, .ret]
 
 /-- **Rule R** (`cuckoo_fast_double`): `lock_all` first (after the nothrow-move delegation), `maybe_resize_locks`
 before `old_buckets_.swap(buckets_)` / `buckets_ = …`, the `fetch_add` after the replacement and after the migration
-bookkeeping (un-migrated marks, pending-stripe counter, immediate rehash), every `return ok` after it, the early
-`return st` before anything changed, no manual release.  Violated by: bumping the counter before the swap, dropping
-the bump, resizing the locks after the swap, returning `ok` on a path without the bump -/
+bookkeeping (un-migrated marks, pending-stripe counter, immediate rehash), every return of a changing path right
+after it, the early `return st` before anything changed, no manual release.  Violated by: bumping the counter before
+the swap, dropping the bump, resizing the locks after the swap, returning on a path without the bump -/
 theorem R_fast_double : chkResize cuckoo_fast_double = true ∧ chkFastDoublePrefix cuckoo_fast_double = true := by
   decide
 
@@ -543,67 +1612,65 @@ theorem R_fast_double_replacement :
     before (isK .rehashLock) isReplace cuckoo_fast_double = true := by decide
 
 /-- non-vacuity: counter bumped before the swap -/
-example : chkResize
-    [A .params "" ["hp"], A .lockAll "" ["TABLE_MODE()"], A .decl "" ["m", "lock_all(TABLE_MODE())"],
-     A .maybeResizeLocks "" ["n"], A .bumpRc "resize_counter_" ["1", "std::memory_order_release"],
-     A .bucketsSwap "old_buckets_" ["swap", "buckets_"], A .bucketsAssign "" ["buckets_", "std::move(nb)"],
-     A .ret "" ["ok"]] = false := by decide
-
-/-- non-vacuity: no bump at all -/
-example : chkResize
-    [A .params "" ["hp"], A .lockAll "" ["TABLE_MODE()"], A .decl "" ["m", "lock_all(TABLE_MODE())"],
-     A .maybeResizeLocks "" ["n"], A .bucketsSwap "buckets_" ["swap", "new_map.buckets_"], A .ret "" ["ok"]]
-    = false := by decide
-
-/-- a good one is accepted (the check is satisfiable by something else than the current source) -/
-example : chkResize
-    [A .params "" ["hp"], A .lockAll "" ["TABLE_MODE()"], A .decl "" ["m", "lock_all(TABLE_MODE())"],
-     A .maybeResizeLocks "" ["n"], A .bucketsSwap "buckets_" ["swap", "new_map.buckets_"],
-     A .bumpRc "resize_counter_" ["1", "std::memory_order_release"], A .ret "" ["ok"]] = true := by decide
+example : chkResize bad_fast_double_bump_first = false := by decide
 
 /-- **Rule R** (`cuckoo_expand_simple`): `lock_all` is the very first action, `maybe_resize_locks` precedes
-`buckets_.swap(new_map.buckets_)`, the `fetch_add` follows, `return ok` only after it, `return st` before anything
-changed.  Violated by: dropping the `fetch_add`, swapping before the lock array is grown, reading `hashpower()`
-before `lock_all` -/
+`buckets_.swap(new_map.buckets_)`, the `fetch_add` follows, the return of the changing path comes right after it,
+`return st` before anything changed.  Violated by: dropping the `fetch_add`, swapping before the lock array is grown,
+reading `hashpower()` before `lock_all`, letting the lock manager die before the end -/
 theorem R_expand_simple :
     chkResize cuckoo_expand_simple = true ∧
     (vocab cuckoo_expand_simple).head?.map (·.k) = some .lockAll ∧
     ((cuckoo_expand_simple.filter isReplace).map fun x => (x.k, x.r, x.a)) =
       [(.bucketsSwap, "buckets_", ["swap", "new_map.buckets_"])] := by decide
 
-/-- `maybe_resize_locks`: one `emplace_back` onto `all_locks_`, unconditional, last action of the function, of the
-very array `nl` all of whose locks were locked just before by `for (lock : nl) lock.lock();`; nothing is unlocked -/
+/-- non-vacuity: no bump at all / the manager is a temporary -/
+example : chkResize bad_expand_simple_no_bump = false := by decide
+example : chkResize bad_expand_simple_temp_manager = false := by decide
+
+/-- `maybe_resize_locks`, with 3 arrays of 2 locks, `kMaxNumLocks = 4`, for several requested bucket counts: when the
+current array is already large enough nothing is locked or appended; otherwise exactly one new vector is appended to
+`all_locks_`, it has `min(kMaxNumLocks, n)` locks, *all* of them were locked (ascending, each once) before the
+`emplace_back`, which is the last thing done; nothing is unlocked -/
 def chkMaybeResizeLocks (l : Sk) : Bool :=
-  count (isK .emplaceBack) l == 1 && unconditional (isK .emplaceBack) l &&
-  count isRelease l == 0 && count (isK .lock) l == 1 &&
-  (match l.find? (isK .emplaceBack), l.find? (fun x => x.k == .loop && x.a.head? == some "range") with
-   | some eb, some lp =>
-     (match lp.a with
-      | [_, lk, nl] =>
-        eb.r == "all_locks_" && eb.a == ["std::move(" ++ nl ++ ")"] &&
-        hasSeq [fun x => x.k == .loop && x.a == ["range", lk, nl], eqAct .lock lk [], isK .endLoop, isK .emplaceBack] l &&
-        (declOf l nl).isSome
-      | _ => false)
-   | _, _ => false) &&
-  (l.getLast?.map (·.k) == some .emplaceBack) &&
-  before (isK .getLocks) (isK .emplaceBack) l
+  match params l with
+  | [nbc] =>
+    interpretable l && nbc != "" &&
+    [1, 2, 3, 4, 8].all fun n =>
+      match runsOf l [(nbc, n), ("kMaxNumLocks", 4)] 3 2 with
+      | [r] =>
+        finished r && r.tr.all (fun e => !isReleaseK e.k) &&
+        (if n ≤ 2 then r.tr.all (fun e => e.k != .lock && e.k != .emplaceBack) && r.arrs == [0, 1, 2]
+         else
+          match r.evs .emplaceBack with
+          | [eb] =>
+            (match eb.v.head? with
+             | some (some nw) =>
+               eb.r == some LIST && r.arrs == [0, 1, 2, nw] && !([0, 1, 2].contains nw) &&
+               r.sz.lookup nw == some (min 4 n) &&
+               allKnown ((r.evs .lock).map (·.r)) == some ((List.range (min 4 n)).map fun i => 100 * nw + i) &&
+               ((r.tr.filter (·.k != .ret)).getLast?.map (·.k) == some .emplaceBack)
+             | _ => false)
+          | _ => false)
+      | _ => false
+  | _ => false
 
 /-- **Rules A/R** (`maybe_resize_locks`): a lock array is appended *born locked* — all of its locks are taken before
-`all_locks_.emplace_back`.  Violated by: appending first and locking afterwards, appending an unlocked array,
-unlocking inside -/
+`all_locks_.emplace_back`.  Violated by: appending first and locking afterwards, appending an unlocked or partly
+locked array, unlocking inside -/
 theorem R_maybe_resize_locks_born_locked : chkMaybeResizeLocks maybe_resize_locks = true := by decide
 
-example : chkMaybeResizeLocks
-    [A .params "" ["n"], A .getLocks, A .decl "" ["cur", "get_current_locks()"], A .decl "" ["nl", "(get_allocator())"],
-     A .emplaceBack "all_locks_" ["std::move(nl)"], A .loop "" ["range", "lock", "all_locks_.back()"], A .lock "lock",
-     A .endLoop] = false := by decide
+example : chkMaybeResizeLocks bad_maybe_resize_emplace_first = false := by decide
+
+/-- an index loop over the resized vector (and a De-Morgan'ed guard) instead of the range-`for` is accepted -/
+example : chkMaybeResizeLocks alt_maybe_resize_index_loop = true := by decide
 
 /-- `operator>>(istream, locked_table)`: the bucket array is read in, then the lock array is grown, then the counter is
 bumped — each once, unconditionally, on the locked table that was passed in -/
 def chkIstream (l : Sk) : Bool :=
   match params l with
   | [is, lt] =>
-    (vocab l).head? == some ⟨.streamIn, "", [is, lt ++ ".buckets()"]⟩ &&
+    ((vocab l).head?.map (eqAct .streamIn "" [is, lt ++ ".buckets()"]) == some true) &&
     count isReplace l == 1 && count (isK .maybeResizeLocks) l == 1 && count (isK .bumpRcCall) l == 1 &&
     count (isK .bumpRc) l == 0 &&
     unconditional (fun x => isReplace x || x.k == .maybeResizeLocks || x.k == .bumpRcCall) l &&
@@ -618,10 +1685,12 @@ def chkIstream (l : Sk) : Bool :=
 buckets, bumping a different counter -/
 theorem R_istream :
     chkIstream locked_table_istream = true ∧
-    locked_table_maybe_resize_locks.drop 1 =
-      [⟨.maybeResizeLocks, "map_.get()", [(params locked_table_maybe_resize_locks).getD 0 ""]⟩] ∧
-    locked_table_bump_resize_counter.drop 1 =
-      [⟨.bumpRc, "map_.get().resize_counter_", ["1", "std::memory_order_release"]⟩] := by decide
+    (vocab locked_table_maybe_resize_locks).map (fun x => (x.k, x.r, x.a)) =
+      [(.maybeResizeLocks, "map_.get()", [(params locked_table_maybe_resize_locks).getD 0 ""])] ∧
+    (vocab locked_table_bump_resize_counter).map (fun x => (x.k, x.r, x.a)) =
+      [(.bumpRc, "map_.get().resize_counter_", ["1", "std::memory_order_release"])] := by decide
+
+example : chkIstream bad_istream_no_bump = false := by decide
 
 example : chkIstream
     [A .params "" ["is", "lt"], A .streamIn "" ["is", "lt.buckets()"], A .bucketsRef "lt", A .bumpRcCall "lt",
@@ -640,16 +1709,22 @@ theorem R_only_resizers_write :
 
 /-! ## rule E — everything taken is given back -/
 
-/-- `AllUnlocker::operator()(map)` : `for (it = first_locked; it != map->all_locks_.end(); ++it) { locks = *it; for (lock : locks) lock.unlock(); }` -/
+/-- `AllUnlocker::operator()(map)`, with 3 arrays of 2 locks, for every starting position `first_locked`: one
+execution; it unlocks, in order and each once, exactly the locks of the arrays from `first_locked` to
+`map->all_locks_.end()`, and does nothing else -/
 def chkAllUnlocker (l : Sk) : Bool :=
-  match l with
-  | [⟨.params, _, [m]⟩, ⟨.decl, _, [it, start]⟩, ⟨.loop, _, ["for", "!=", it', e]⟩, ⟨.decl, _, [ls, deref]⟩,
-     ⟨.loop, _, ["range", lk, ls']⟩, ⟨.unlock, lk', []⟩, ⟨.endLoop, _, _⟩, ⟨.step, _, [st]⟩, ⟨.endLoop, _, _⟩] =>
-    start == "first_locked" && it' == it && e == m ++ "->all_locks_.end()" && deref == "*" ++ it && ls' == ls &&
-    lk' == lk && (st == "++" ++ it || st == it ++ "++")
+  match params l with
+  | [m] =>
+    interpretable l && m != "" &&
+    [0, 1, 2].all fun p =>
+      match runsOf l [("first_locked", p), (m, 1)] 3 2 with
+      | [r] =>
+        finished r && r.tr.all (fun e => e.k == .unlock || e.k == .ret) &&
+        allKnown ((r.evs .unlock).map (·.r)) == some (locksFrom p 3 2)
+      | _ => false
   | _ => false
 
-/-- **Rule E** (`AllUnlocker`): walks from `first_locked` (the iterator `lock_all` started from, see
+/-- **Rule E** (`AllUnlocker`): walks from `first_locked` (the position `lock_all` started from, see
 `A_lock_all_walk`) to `all_locks_.end()` and unlocks every lock of every array — including arrays appended while the
 table was owned.  `AllLocksManager` is a `unique_ptr` with this deleter.  Violated by: starting at
 `std::next(first_locked)`, stopping early, skipping locks -/
@@ -658,37 +1733,39 @@ theorem E_all_unlocker :
     fields.any (fun f => f.1 == "AllUnlocker" && f.2.1 == "first_locked") = true ∧
     aliases.lookup "AllLocksManager" = some "std::unique_ptr<cuckoohash_map,AllUnlocker>" := by decide
 
-example : chkAllUnlocker
-    [A .params "" ["map"], A .decl "" ["it", "std::next(first_locked)"], A .loop "" ["for", "!=", "it", "map->all_locks_.end()"],
-     A .decl "" ["locks", "*it"], A .loop "" ["range", "lock", "locks"], A .unlock "lock", A .endLoop,
-     A .step "" ["++it"], A .endLoop] = false := by decide
+example : chkAllUnlocker bad_unlocker_next = false := by decide
+
+/-- a `while` loop with `std::for_each` + lambda inside is the same walk -/
+example : chkAllUnlocker alt_unlocker_for_each = true := by decide
 
 /-- **Rule E** (`TwoBuckets::unlock`, `LockDeleter`): `unlock()` resets *every* `LockManager` member of `TwoBuckets`
 (both of them), a `LockManager` is a `unique_ptr<spinlock, LockDeleter>`, and `LockDeleter` unlocks the spinlock it
 is given.  Violated by: resetting only one manager, a deleter that does not unlock -/
 theorem E_two_buckets_and_lock_deleter :
-    ((TwoBuckets_unlock.filter (isK .reset)).map (·.r)) =
-      ((fields.filter fun f => f.1 == "TwoBuckets" && f.2.2 == "LockManager").map (·.2.1)) ∧
+    samePerm ((TwoBuckets_unlock.filter (isK .reset)).map (·.r))
+      ((fields.filter fun f => f.1 == "TwoBuckets" && f.2.2 == "LockManager").map (·.2.1)) = true ∧
     (TwoBuckets_unlock.filter (isK .reset)).length = 2 ∧
     (vocab TwoBuckets_unlock).all (isK .reset) = true ∧
+    unconditional (isK .reset) TwoBuckets_unlock = true ∧
     aliases.lookup "LockManager" = some "std::unique_ptr<spinlock,LockDeleter>" ∧
-    (match LockDeleter with
-     | [⟨.params, _, [p]⟩, ⟨.unlock, r, []⟩] => p == r && p != ""
-     | _ => false) = true := by decide
+    (match params LockDeleter, vocab LockDeleter with
+     | [p], [u] => u.k == .unlock && u.r == p && p != "" && unconditional (isK .unlock) LockDeleter
+     | _, _ => false) = true := by decide
 
-example : ((([A .params, A .reset "first_manager_"] : Sk).filter (isK .reset)).map (·.r) ==
-    ((fields.filter fun f => f.1 == "TwoBuckets" && f.2.2 == "LockManager").map (·.2.1))) = false := by decide
+example : samePerm ((bad_two_buckets_one_reset.filter (isK .reset)).map (·.r))
+    ((fields.filter fun f => f.1 == "TwoBuckets" && f.2.2 == "LockManager").map (·.2.1)) = false := by decide
+
+/-- `clear`: every execution is `lock_all(normal_mode())` then `cuckoo_clear()`, and the manager lives in a local -/
+def chkClear (l : Sk) : Bool :=
+  interpretable l &&
+  (runsOf l []).all (fun r => finished r && r.kinds.filter (· != .ret) == [.lockAll, .cuckooClear]) &&
+  hasSeq [eqAct .lockAll "" ["normal_mode()"], fun x => x.k == .decl && x.a.getD 1 "" == "lock_all(normal_mode())"] l
 
 /-- **Rule E / R** (`clear`): `lock_all(normal_mode())`, kept in a local for the whole body, then `cuckoo_clear()`.
 Violated by: clearing before / without owning the table, discarding the manager before clearing -/
-theorem E_clear :
-    clear.drop 1 = [⟨.lockAll, "", ["normal_mode()"]⟩,
-                    ⟨.decl, "", [(localWithInit clear "lock_all(normal_mode())").getD "?", "lock_all(normal_mode())"]⟩,
-                    ⟨.cuckooClear, "", []⟩] := by decide
+theorem E_clear : chkClear clear = true := by decide
 
-example : (([A .params, A .cuckooClear, A .lockAll "" ["normal_mode()"], A .decl "" ["m", "lock_all(normal_mode())"]] : Sk).drop 1
-    == [⟨.lockAll, "", ["normal_mode()"]⟩, ⟨.decl, "", ["m", "lock_all(normal_mode())"]⟩, ⟨.cuckooClear, "", []⟩]) = false := by
-  decide
+example : chkClear bad_clear_before_lock = false := by decide
 
 /-- **Rule E / A** (`locked_table`): the constructor takes `map.lock_all(normal_mode())` (into the
 `AllLocksManager` member, in the initialiser list) before `map.rehash_with_workers()`; `unlock()` resets exactly
@@ -696,38 +1773,39 @@ that member.  Violated by: rehashing before owning the table, constructing witho
 the manager -/
 theorem E_locked_table :
     (match params locked_table_ctor with
-     | [m] => locked_table_ctor.drop 1 == [⟨.lockAll, m, ["normal_mode()"]⟩, ⟨.rehashWorkers, m, []⟩] && m != ""
+     | [m] => m != "" && (vocab locked_table_ctor).map (fun x => (x.k, x.r, x.a)) ==
+                [(.lockAll, m, ["normal_mode()"]), (.rehashWorkers, m, [])] &&
+              unconditional (fun _ => true) locked_table_ctor
      | _ => false) = true ∧
-    locked_table_unlock.drop 1 = [⟨.reset, "all_locks_manager_", []⟩] ∧
+    (vocab locked_table_unlock).map (fun x => (x.k, x.r, x.a)) = [(.reset, "all_locks_manager_", [])] ∧
+    unconditional (isK .reset) locked_table_unlock = true ∧
     fields.contains ("locked_table", "all_locks_manager_", "AllLocksManager") = true := by decide
 
-example : (([A .params "" ["map"], A .rehashWorkers "map", A .lockAll "map" ["normal_mode()"]] : Sk).drop 1
-    == [⟨.lockAll, "map", ["normal_mode()"]⟩, ⟨.rehashWorkers, "map", []⟩]) = false := by decide
+example : ((vocab ([A .params "" ["map"], A .rehashWorkers "map", A .lockAll "map" ["normal_mode()"]] : Sk)).map
+    (fun x => (x.k, x.r, x.a)) == [(.lockAll, "map", ["normal_mode()"]), (.rehashWorkers, "map", [])]) = false := by decide
 
 /-! ## lazy migration (`rehash_lock`, `rehash_with_workers`) -/
 
-/-- `rehash_lock<IS_LAZY>(l)`: the stripe's lock is `get_current_locks()[l]`; the first thing is the `is_migrated()`
-test with an immediate `return`; the bucket moves (old → current array) come next; then the stripe is marked
-migrated; the lazy decrement (guarded by `IS_LAZY`) is last -/
+/-- `rehash_lock<IS_LAZY>(l)`, with `kMaxNumLocks = 2`, 4 old buckets, for both stripes, both values of `IS_LAZY`, and
+the stripe migrated or not: the flag of the stripe's lock (`get_current_locks()[l]`) is tested first; if set nothing
+else happens; otherwise the old buckets `l, l + kMaxNumLocks, …` are moved into the current array, then the flag of
+that lock is set, and the pending-stripe counter is decremented last and only if `IS_LAZY` -/
 def chkRehashLock (l : Sk) : Bool :=
   match params l with
   | [p] =>
-    kinds (vocab l) == [.getLocks, .isMigrated, .moveBucket, .setMigrated, .lazyDec] &&
-    (match localWithInit l "get_current_locks()" with
-     | some locks =>
-       (match l.find? (isK .isMigrated) with
-        | some im =>
-          ((declOf l im.r).map (·.a.drop 2) == some [locks, p]) &&
-          l.any (eqAct .setMigrated im.r ["true"]) &&
-          hasSeq [fun x => x.k == .if_ && x.a == ["?", im.r ++ ".is_migrated()"], isK .isMigrated, isK .then_,
-                  fun x => x.k == .ret && x.a == [], isK .endIf] l
-        | none => false)
-     | none => false) &&
-    l.any (fun x => x.k == .moveBucket && x.a.take 2 == ["old_buckets_", "buckets_"]) &&
-    allInLoop (isK .moveBucket) l &&
-    unconditional (isK .setMigrated) l &&
-    hasSeq [fun x => x.k == .if_ && x.a == ["?", "IS_LAZY"], isK .then_, isK .lazyDec, isK .endIf] l &&
-    (l.getLast?.map (·.k) == some .endIf) && count (isK .ret) l == 1
+    interpretable l && p != "" &&
+    [0, 1].all fun s => [0, 1].all fun lz => [0, 1].all fun mg =>
+      match runsOf l [(p, s), ("kMaxNumLocks", 2), ("old_buckets_.size()", 4), ("IS_LAZY", lz), (".is_migrated", mg)] 3 2 with
+      | [r] =>
+        finished r &&
+        (let ks := r.kinds.filter (· != .ret)
+         if mg == 1 then ks == [.getLocks, .isMigrated]
+         else ks == [.getLocks, .isMigrated, .moveBucket, .moveBucket, .setMigrated] ++ (if lz == 1 then [.lazyDec] else [])) &&
+        (r.evs .isMigrated).map (·.r) == [some (200 + s)] &&
+        (r.evs .moveBucket).all (fun e => e.a.a.take 2 == ["old_buckets_", "buckets_"]) &&
+        (mg == 1 || (r.evs .moveBucket).map (fun e => e.v.getD 2 none) == [some s, some (s + 2)]) &&
+        (r.evs .setMigrated).all (fun e => e.r == some (200 + s) && e.v == [some 1])
+      | _ => false
   | _ => false
 
 /-- **Lazy migration** (`rehash_lock`): test `is_migrated()` first, move the buckets, mark migrated, and only then
@@ -735,20 +1813,14 @@ decrement the pending-stripe counter (whose reaching zero frees `old_buckets_`).
 moves (old array freed while still needed), marking before moving, not testing the flag (double migration) -/
 theorem M_rehash_lock : chkRehashLock rehash_lock = true := by decide
 
-example : chkRehashLock
-    [A .params "" ["l"], A .getLocks, A .decl "" ["locks", "get_current_locks()"], A .decl "" ["lock", "locks[l]", "locks", "l"],
-     A .if_ "" ["?", "lock.is_migrated()"], A .isMigrated "lock", A .then_, A .ret, A .endIf,
-     A .if_ "" ["?", "IS_LAZY"], A .then_, A .lazyDec, A .endIf,
-     A .decl "" ["b", "l"], A .loop "" ["for", "<", "b", "old_buckets_.size()"],
-     A .moveBucket "" ["old_buckets_", "buckets_", "b"], A .step "" ["b+=kMaxNumLocks"], A .endLoop,
-     A .setMigrated "lock" ["true"]] = false := by decide
+example : chkRehashLock bad_rehash_lock_dec_first = false := by decide
 
 /-- `rehash_with_workers`: every stripe of the current array is rehashed non-lazily, then the pending counter is
 cleared -/
 theorem M_rehash_with_workers :
     kinds (vocab rehash_with_workers) = [.getLocks, .parallelExec, .rehashLock, .lazySet] ∧
     rehash_with_workers.any (fun x => x.k == .rehashLock && x.a.head? == some "kIsNotLazy") = true ∧
-    rehash_with_workers.getLast? = some ⟨.lazySet, "", ["0"]⟩ := by decide
+    (vocab rehash_with_workers).getLast?.map (fun x => (x.k, x.r, x.a)) = some (.lazySet, "", ["0"]) := by decide
 
 /-! ## bucket accesses happen under a validated lock (cuckoo path functions) -/
 
@@ -784,16 +1856,40 @@ theorem V_path_functions_access_under_lock :
     ([slot_search, cuckoopath_search, cuckoopath_move].all fun l =>
       count (fun x => x.k == .loadRc || x.k == .hpGet || x.k == .getLocks) l == 0) = true := by decide
 
-/-- non-vacuity: a bucket read after the lock manager's scope (next loop iteration) is rejected -/
-example : chkAccessUnderLock true []
-    [A .params "" ["hp", "rc", "i1", "i2"], A .lockOne "" ["rc", "x.bucket", "TABLE_MODE()"],
-     A .loop "" ["while", "?", "!q.empty()"], A .bucketAt "" ["buckets_", "x.bucket"], A .endLoop] = false := by decide
+/-- non-vacuity: a bucket read before its `lock_one` is rejected -/
+example : chkAccessUnderLock true [] bad_slot_search_read_first = false := by decide
 
-/-- `cuckoopath_move`, `depth == 0`: when the slot turned out to be taken the two buckets are unlocked before
-`return false` (the contract "unsuccessful ⇒ unlocked") -/
-theorem E_cuckoopath_move_failure_unlocks :
-    hasSeq [isK .else_, fun x => x.k == .unlock && x.r == (params cuckoopath_move).getD 3 "?",
-            fun x => x.k == .ret && x.a == ["false"], isK .endIf] cuckoopath_move = true := by decide
+/-- `cuckoopath_move` with `depth == 0`, on every path: the two insert buckets are re-locked by `lock_two` before the
+bucket is looked at; a `return false` is preceded by exactly one `b.unlock()` after that `lock_two`, a `return true`
+by none (the caller then owns the locks); if `lock_two` throws nothing was touched -/
+def chkPathMoveDepth0 (l : Sk) : Bool :=
+  match params l with
+  | [_, _, d, b] =>
+    let rs := runsOf l [(d, 0), (b, 55)]
+    interpretable l && d != "" && b != "" &&
+    rs.any (fun r => r.exit == .ret && (r.tr.getLast?.bind (·.r)) == some 0) &&
+    rs.any (fun r => r.exit == .ret && (r.tr.getLast?.bind (·.r)) == some 1) &&
+    rs.all fun r =>
+      let aft := (r.tr.dropWhile (·.k != .lockTwo)).drop 1
+      (r.evs .lockTwo).length == 1 &&
+      (r.tr.takeWhile (·.k != .lockTwo)).all (fun e => e.k != .bucketAt && e.k != .bucketsMeth && e.k != .unlock) &&
+      (if r.exit == .ret then
+        (match r.tr.getLast? with
+         | some last =>
+           last.k == .ret &&
+           (if last.r == some 0 then (aft.filter (·.k == .unlock)).map (·.a.r) == [b]
+            else last.r == some 1 && aft.all (·.k != .unlock))
+         | none => false)
+       else r.exit == .thrw && aft.isEmpty)
+  | _ => false
+
+/-- **Rule E** (`cuckoopath_move`, contract "unsuccessful ⇒ unlocked, successful ⇒ still locked"): with `depth == 0`
+the two buckets are unlocked before `return false` and kept on `return true`.  Violated by: returning `false` with
+the locks held, unlocking on the success path -/
+theorem E_cuckoopath_move_failure_unlocks : chkPathMoveDepth0 cuckoopath_move = true := by decide
+
+/-- the flipped form `if (occupied) { b.unlock(); return false; } return true;` is the same thing -/
+example : chkPathMoveDepth0 alt_cuckoopath_move_flipped = true := by decide
 
 /-! ## `cuckoo_insert_loop`: what happens after a failed `cuckoo_insert` -/
 
@@ -806,9 +1902,10 @@ theorem S_insert_loop :
     (match localWithInit cuckoo_insert_loop "hashpower()", cuckoo_insert_loop.find? (isK .fastDouble) with
      | some hp, some fd => fd.a.getLast? == some hp
      | _, _ => false) = true ∧
-    hasSeq [eqAct .case_ "" ["failure_table_full"], isK .fastDouble, isK .snapshotLockTwo, isK .break_]
+    hasSeq [eqAct .case_ "" ["failure_table_full"], isK .fastDouble, isK .snapshotLockTwo, isK .assign, isK .break_]
       cuckoo_insert_loop = true ∧
-    hasSeq [eqAct .case_ "" ["failure_under_expansion"], isK .snapshotLockTwo, isK .break_] cuckoo_insert_loop = true ∧
+    hasSeq [eqAct .case_ "" ["failure_under_expansion"], isK .snapshotLockTwo, isK .assign, isK .break_]
+      cuckoo_insert_loop = true ∧
     hasSeq [eqAct .case_ "" ["ok"], eqAct .case_ "" ["failure_key_duplicated"], isK .ret] cuckoo_insert_loop = true := by
   decide
 
@@ -817,7 +1914,8 @@ theorem S_insert_loop :
 /-- `get_current_locks()` is `all_locks_.back()` (the model's `genLoad`), `load_resize_counter()` is one acquire load
 of `resize_counter_` (the model's `rcLoad`) -/
 theorem S_primitive_reads :
-    get_current_locks.drop 1 = [⟨.locksBack, "all_locks_", []⟩, ⟨.ret, "", ["all_locks_.back()"]⟩] ∧
+    (get_current_locks.drop 1).map (fun x => (x.k, x.r, x.a)) =
+      [(.locksBack, "all_locks_", []), (.ret, "", ["all_locks_.back()"])] ∧
     kinds (vocab load_resize_counter) = [.rcLoadRaw] ∧
     load_resize_counter.any (eqAct .rcLoadRaw "resize_counter_" ["std::memory_order_acquire"]) = true := by decide
 
